@@ -165,11 +165,1653 @@ Theorem fold_insert_dup l1 l2 l3 f fs :
   fold_left insert_fact (l1 ++ f :: l2 ++ l3) fs.
 Proof.
   rewrite !fold_insert_app. cbn [fold_left]. rewrite !fold_insert_app. cbn [fold_left].
-  f_equal. apply insert_present. apply insert_all_incl.
-  set (w := fold_left insert_fact l1 fs).
-  assert (H : fact_in f (insert_fact w f) = true) by apply insert_fact_self.
-  unfold insert_fact in *. destruct (fact_in f w) eqn:Hw.
-  - unfold fact_in in Hw. apply existsb_exists in Hw as [g [Hg He]].
-    (* without set-freeness the fact found may be a different, Equal one *)
-    clear H. revert g Hg He. fail.
-Abort.
+  f_equal. apply insert_fact_noop.
+  eapply fact_in_mono; [|apply insert_fact_self].
+  intros x Hx. apply insert_all_incl. exact Hx.
+Qed.
+
+Lemma insert_all_noop nf fs : (forall f, In f nf -> In f fs) -> insert_all fs nf = fs.
+Proof. exact (fold_insert_noop nf fs). Qed.
+
+Section Order.
+Variable rx : bytes -> bytes -> option bool.
+
+(* ------------------------------------------------------------------ *)
+(** * Runs over the same sets of facts and rules *)
+
+Lemma Derivable_seteq rules rules' facts facts' :
+  seteq rules rules' -> seteq facts facts' ->
+  forall f, Derivable rx rules facts f <-> Derivable rx rules' facts' f.
+Proof.
+  intros Hr Hf f. split; apply Derivable_incl; intros x Hx;
+    first [apply Hr; exact Hx | apply Hf; exact Hx].
+Qed.
+
+(* [run_perm] with "same elements" instead of "permutation": duplicates in the
+   rule list do not matter either *)
+Theorem run_seteq lim lim' rules rules' facts facts' x y :
+  setfree_facts facts -> setfree_rules rules -> NoDup facts -> NoDup facts' ->
+  seteq facts facts' -> seteq rules rules' ->
+  run rx lim rules facts = (x, None) -> run rx lim' rules' facts' = (y, None) ->
+  Permutation x y.
+Proof.
+  intros Hsf Hsr Hn Hn' Hf Hr Hx Hy.
+  assert (Hsf' : setfree_facts facts').
+  { eapply setfree_facts_incl; [|exact Hsf]. intros f H. apply Hf. exact H. }
+  assert (Hsr' : setfree_rules rules').
+  { eapply setfree_rules_incl; [|exact Hsr]. intros r H. apply Hr. exact H. }
+  destruct (C05_least_model rx _ _ _ _ Hn Hsf Hsr Hx) as [Hmx Hnx].
+  destruct (C05_least_model rx _ _ _ _ Hn' Hsf' Hsr' Hy) as [Hmy Hny].
+  apply NoDup_seteq_Permutation; [exact Hnx | exact Hny|].
+  intro f. rewrite (Hmx f), (Hmy f). apply Derivable_seteq; assumption.
+Qed.
+
+(* ------------------------------------------------------------------ *)
+(** * 1. Error-free queries: emptiness of the result depends on the fact *set* only *)
+
+(* every candidate tuple over [M] evaluates without error, and a tuple that
+   passes the expressions can instantiate the head *)
+Definition rule_ef_on (M : pred -> Prop) (r : rule) : Prop :=
+  forall c b,
+    Forall M c ->
+    Forall2 (fun g p => pred_match g p = true) c (r_body r) ->
+    bind_all (r_body r) c [] = Some b ->
+    (exists v, eval_exprs rx (r_exprs r) b = Ok v) /\
+    (eval_exprs rx (r_exprs r) b = Ok true -> inst_head (r_head r) b <> None).
+
+Definition rule_ef (r : rule) (fs : list pred) : Prop := rule_ef_on (fun g => In g fs) r.
+
+(* the declarative form: over the least model of a program *)
+Definition error_free (rules : list rule) (facts : list pred) (qs : list rule) : Prop :=
+  forall q, In q qs -> rule_ef_on (Derivable rx rules facts) q.
+
+Lemma rule_ef_on_incl (M M' : pred -> Prop) r :
+  (forall g, M' g -> M g) -> rule_ef_on M r -> rule_ef_on M' r.
+Proof.
+  intros Hi H c b Hc Hm Hb. apply (H c b); [|exact Hm|exact Hb].
+  eapply Forall_impl; [|exact Hc]. exact Hi.
+Qed.
+
+Lemma rule_ef_seteq r fs fs' : seteq fs fs' -> rule_ef r fs -> rule_ef r fs'.
+Proof. intros He. apply rule_ef_on_incl. intros g Hg. apply He. exact Hg. Qed.
+
+(* whatever the outcome of the run, its world lies inside the least model *)
+Lemma error_free_run lim rules facts fs e qs :
+  run rx lim rules facts = (fs, e) -> error_free rules facts qs ->
+  forall q, In q qs -> rule_ef q fs.
+Proof.
+  intros Hrun Hef q Hq. eapply rule_ef_on_incl; [|apply Hef; exact Hq].
+  intros g Hg. eapply run_sound; eassumption.
+Qed.
+
+(* rules that are error-free over the least model: the run can only fail on a limit *)
+Theorem error_free_no_rule_error lim rules facts fs e :
+  error_free rules facts rules -> run rx lim rules facts = (fs, Some e) ->
+  e = EMaxFacts \/ e = EMaxIterations.
+Proof.
+  intros Hef Hrun.
+  destruct (run_error_cases rx _ _ _ _ _ Hrun) as [H|[H|[r [c [b [Hr [Ha [Hm [Hb Hcase]]]]]]]]];
+    [left; exact H | right; exact H | exfalso].
+  pose proof (error_free_run _ _ _ _ _ _ Hrun Hef r Hr) as Hq.
+  destruct (Hq c b Ha Hm Hb) as [[v Hv] Hi].
+  destruct Hcase as [[He _]|[He [Hh _]]]; [congruence | exact (Hi He Hh)].
+Qed.
+
+(* in the set-free fragment the declarative and the computed formulation agree *)
+Lemma error_free_of_run lim rules facts fs qs :
+  setfree_facts facts -> setfree_rules rules -> run rx lim rules facts = (fs, None) ->
+  (forall q, In q qs -> rule_ef q fs) -> error_free rules facts qs.
+Proof.
+  intros Hsf Hsr Hrun H q Hq. eapply rule_ef_on_incl; [|apply H; exact Hq].
+  intros g Hg. eapply run_complete; eassumption.
+Qed.
+
+Lemma rule_ef_no_error r fs acc : rule_ef r fs -> snd (apply_rule rx r fs acc) = None.
+Proof.
+  intro Hef. destruct (apply_rule rx r fs acc) as [acc' [e|]] eqn:H; [|reflexivity].
+  exfalso. unfold apply_rule in H. apply consume_err in H as [c [Hc Hs]].
+  apply combos_in in Hc as [Ha Hm]. apply tuple_out_stop in Hs as [b [Hb Hcase]].
+  destruct (Hef c b Ha Hm Hb) as [[v Hv] Hi].
+  destruct Hcase as [[He _]|[He [Hh _]]]; [congruence | exact (Hi He Hh)].
+Qed.
+
+(* "some tuple of [M]-facts matches the body consistently and passes the expressions" *)
+Definition sat_on (M : pred -> Prop) (q : rule) : Prop :=
+  exists c b,
+    Forall M c /\
+    Forall2 (fun g p => pred_match g p = true) c (r_body q) /\
+    bind_all (r_body q) c [] = Some b /\
+    eval_exprs rx (r_exprs q) b = Ok true.
+
+Lemma sat_on_incl (M M' : pred -> Prop) q : (forall g, M g -> M' g) -> sat_on M q -> sat_on M' q.
+Proof.
+  intros Hi [c [b [Ha [Hm [Hb He]]]]]. exists c, b.
+  split; [eapply Forall_impl; [|exact Ha]; exact Hi | auto].
+Qed.
+
+(* left to right needs nothing *)
+Lemma query_nonempty_sat q fs : query_rule rx q fs <> [] -> sat_on (fun g => In g fs) q.
+Proof.
+  intro H. destruct (query_rule rx q fs) as [|h l] eqn:E; [congruence|].
+  assert (Hin : In h (query_rule rx q fs)) by (rewrite E; left; reflexivity).
+  apply query_sound in Hin as [c [b [Ha [Hm [Hb [He _]]]]]]. exists c, b. auto.
+Qed.
+
+(** 1a.  (No set-free hypothesis is needed for this one.) *)
+Theorem query_nonempty_iff q fs :
+  rule_ef q fs ->
+  (query_rule rx q fs <> [] <->
+   exists c b,
+     Forall (fun g => In g fs) c /\
+     Forall2 (fun g p => pred_match g p = true) c (r_body q) /\
+     bind_all (r_body q) c [] = Some b /\
+     eval_exprs rx (r_exprs q) b = Ok true).
+Proof.
+  intro Hef. split; [apply query_nonempty_sat|].
+  intros [c [b [Ha [Hm [Hb He]]]]].
+  destruct (Hef c b Ha Hm Hb) as [_ Hi].
+  destruct (inst_head (r_head q) b) as [h|] eqn:Hh; [|exfalso; exact (Hi He eq_refl)].
+  pose proof (rule_ef_no_error q fs [] Hef) as Hno.
+  unfold query_rule. destruct (apply_rule rx q fs []) as [res e] eqn:Hap.
+  cbn [fst snd] in *. subst e. unfold apply_rule in Hap.
+  assert (Hc : In c (combos (r_body q) fs)) by (apply combos_in; split; assumption).
+  assert (Ht : tuple_out rx q c = TEmit h).
+  { apply tuple_out_emit. exists b. unfold fires. auto. }
+  pose proof (consume_complete rx _ _ _ _ _ _ Hap Hc Ht) as Hfi.
+  intro Hnil. subst res. discriminate Hfi.
+Qed.
+
+Theorem query_nonempty_seteq q fs fs' :
+  seteq fs fs' -> rule_ef q fs ->
+  (query_rule rx q fs <> [] <-> query_rule rx q fs' <> []).
+Proof.
+  intros He Hef.
+  rewrite (query_nonempty_iff q fs Hef), (query_nonempty_iff q fs' (rule_ef_seteq _ _ _ He Hef)).
+  split; apply sat_on_incl; intros g Hg; apply He; exact Hg.
+Qed.
+
+(** 1b *)
+Theorem query_nonempty_perm q fs fs' :
+  Permutation fs fs' -> rule_ef q fs ->
+  (query_rule rx q fs <> [] <-> query_rule rx q fs' <> []).
+Proof. intro H. apply query_nonempty_seteq. apply Permutation_seteq. exact H. Qed.
+
+Definition check_ef (c : check) (fs : list pred) : Prop := forall q, In q c -> rule_ef q fs.
+
+Theorem check_holds_seteq fs fs' c c' :
+  seteq fs fs' -> seteq c c' -> check_ef c fs ->
+  check_holds rx fs c = check_holds rx fs' c'.
+Proof.
+  intros Hf Hc Hef. apply Bool.eq_true_iff_eq.
+  rewrite (C04_or_is_disjunction rx fs c), (C04_or_is_disjunction rx fs' c').
+  split; intros [q [Hq Hne]]; exists q.
+  - split; [apply Hc; exact Hq|]. apply (query_nonempty_seteq q fs fs' Hf); [apply Hef; exact Hq | exact Hne].
+  - apply Hc in Hq. split; [exact Hq|].
+    apply (query_nonempty_seteq q fs fs' Hf); [apply Hef; exact Hq | exact Hne].
+Qed.
+
+(** 1c *)
+Theorem check_holds_perm fs fs' c c' :
+  Permutation fs fs' -> Permutation c c' -> check_ef c fs ->
+  check_holds rx fs c = check_holds rx fs' c'.
+Proof. intros Hf Hc. apply check_holds_seteq; apply Permutation_seteq; assumption. Qed.
+
+(* ------------------------------------------------------------------ *)
+(** * 2. Lists of checks *)
+
+(* permuted as a list, each check permuted inside *)
+Definition checks_perm (cs cs' : list check) : Prop :=
+  exists mid, Permutation cs mid /\ Forall2 (@Permutation rule) mid cs'.
+
+Definition checks_ef (cs : list check) (fs : list pred) : Prop :=
+  forall c, In c cs -> check_ef c fs.
+
+Lemma checks_perm_refl cs : checks_perm cs cs.
+Proof.
+  exists cs. split; [apply Permutation_refl|].
+  induction cs as [|c cs IH]; constructor; [apply Permutation_refl | exact IH].
+Qed.
+
+Lemma failed_checks_length o fs cs : forall i,
+  length (failed_checks rx o fs cs i) = length (filter (fun c => negb (check_holds rx fs c)) cs).
+Proof.
+  induction cs as [|c cs IH]; intros i; cbn [failed_checks filter]; [reflexivity|].
+  rewrite app_length, IH. destruct (check_holds rx fs c); reflexivity.
+Qed.
+
+Lemma checks_ok_length o fs cs i :
+  checks_ok rx fs cs = true <-> length (failed_checks rx o fs cs i) = 0.
+Proof.
+  rewrite <- (failed_checks_nil rx o fs cs i).
+  destruct (failed_checks rx o fs cs i); cbn [length]; split; intro H;
+    first [reflexivity | discriminate H].
+Qed.
+
+Theorem failed_checks_count_seteq fs fs' cs cs' o i o' i' :
+  seteq fs fs' -> checks_perm cs cs' -> checks_ef cs fs ->
+  length (failed_checks rx o fs cs i) = length (failed_checks rx o' fs' cs' i').
+Proof.
+  intros Hf [mid [Hp Hm]] Hef. rewrite !failed_checks_length.
+  rewrite (filter_length_perm _ _ _ Hp). apply filter_length_Forall2.
+  assert (Hefm : forall c, In c mid -> check_ef c fs).
+  { intros c Hc. apply Hef. eapply Permutation_in; [apply Permutation_sym; exact Hp | exact Hc]. }
+  clear Hp Hef. induction Hm as [|c c' mid cs' Hc Hm IH]; constructor.
+  - f_equal. apply check_holds_seteq; [exact Hf | apply Permutation_seteq; exact Hc|].
+    apply Hefm. left. reflexivity.
+  - apply IH. intros c0 Hc0. apply Hefm. right. exact Hc0.
+Qed.
+
+(** 2 *)
+Theorem checks_ok_perm fs fs' cs cs' :
+  Permutation fs fs' -> checks_perm cs cs' -> checks_ef cs fs ->
+  checks_ok rx fs cs = checks_ok rx fs' cs' /\
+  forall o i o' i',
+    length (failed_checks rx o fs cs i) = length (failed_checks rx o' fs' cs' i').
+Proof.
+  intros Hf Hc Hef. apply Permutation_seteq in Hf.
+  pose proof (failed_checks_count_seteq fs fs' cs cs' FromAuthorizer 0%N FromAuthorizer 0%N Hf Hc Hef) as Hl.
+  split.
+  - apply Bool.eq_true_iff_eq.
+    rewrite (checks_ok_length FromAuthorizer fs cs 0%N), (checks_ok_length FromAuthorizer fs' cs' 0%N).
+    rewrite Hl. reflexivity.
+  - intros o i o' i'. apply failed_checks_count_seteq; assumption.
+Qed.
+
+(* ------------------------------------------------------------------ *)
+(** * 3. Policies: the list order is significant and is kept *)
+
+Definition policy_perm (p p' : policy) : Prop :=
+  pol_kind p = pol_kind p' /\ Permutation (pol_queries p) (pol_queries p').
+
+Definition policies_ef (ps : list policy) (fs : list pred) : Prop :=
+  forall p, In p ps -> check_ef (pol_queries p) fs.
+
+Lemma policies_perm_refl ps : Forall2 policy_perm ps ps.
+Proof.
+  induction ps as [|p ps IH]; constructor; [|exact IH].
+  split; [reflexivity | apply Permutation_refl].
+Qed.
+
+Theorem policy_result_seteq fs fs' ps ps' :
+  seteq fs fs' -> Forall2 policy_perm ps ps' -> policies_ef ps fs ->
+  policy_result rx fs ps = policy_result rx fs' ps'.
+Proof.
+  intros Hf Hp. induction Hp as [|p p' ps ps' [Hk Hq] Hp IH]; intro Hef; cbn [policy_result];
+    [reflexivity|].
+  rewrite <- (check_holds_seteq fs fs' (pol_queries p) (pol_queries p') Hf
+                (Permutation_seteq _ _ Hq) (Hef p (or_introl eq_refl))).
+  rewrite Hk, IH; [reflexivity|]. intros p0 Hp0. apply Hef. right. exact Hp0.
+Qed.
+
+(** 3 *)
+Theorem policy_result_perm_facts fs fs' ps ps' :
+  Permutation fs fs' -> Forall2 policy_perm ps ps' -> policies_ef ps fs ->
+  policy_result rx fs ps = policy_result rx fs' ps'.
+Proof. intro H. apply policy_result_seteq. apply Permutation_seteq. exact H. Qed.
+
+(* the policy order cannot be permuted: first match wins *)
+
+(* ------------------------------------------------------------------ *)
+(** * 4. C12, permutation of everything but the policy list *)
+
+Inductive vclass :=
+| KSuccess | KPolicyDenied | KNoMatchingPolicy
+| KChecksFailed (n : nat)          (* how many checks failed; the indices are renumbered *)
+| KRunError (e : err).
+
+Definition verdict_class (v : verdict) : vclass :=
+  match v with
+  | VSuccess => KSuccess
+  | VPolicyDenied => KPolicyDenied
+  | VNoMatchingPolicy => KNoMatchingPolicy
+  | VChecksFailed l => KChecksFailed (length l)
+  | VRunError e => KRunError e
+  end.
+
+Record block_perm (b b' : block) : Prop := {
+  bp_facts : Permutation (b_facts b) (b_facts b');
+  bp_rules : Permutation (b_rules b) (b_rules b');
+  bp_checks : checks_perm (b_checks b) (b_checks b') }.
+
+Record astate_perm (a a' : astate) : Prop := {
+  ap_facts : Permutation (a_facts a) (a_facts a');
+  ap_rules : Permutation (a_rules a) (a_rules a');
+  ap_checks : checks_perm (a_checks a) (a_checks a');
+  ap_policies : Forall2 policy_perm (a_policies a) (a_policies a');
+  ap_limits : a_limits a = a_limits a' }.
+
+Lemma block_perm_refl b : block_perm b b.
+Proof. split; [apply Permutation_refl | apply Permutation_refl | apply checks_perm_refl]. Qed.
+
+Definition block_setfree (b : block) : Prop :=
+  setfree_facts (b_facts b) /\ setfree_rules (b_rules b).
+
+Lemma block_setfree_empty : block_setfree empty_block.
+Proof. split; constructor. Qed.
+
+(* every Datalog run inside [authorize rx tok a] ends without error *)
+Definition runs_ok (tok : list block) (a : astate) : Prop :=
+  snd (auth_world rx (hd empty_block tok) a) = None /\
+  Forall (fun b => snd (block_world rx (a_limits a)
+                          (fst (auth_world rx (hd empty_block tok) a)) b) = None) (tl tok).
+
+(* every check / policy query is error-free on the world it is evaluated on *)
+Definition queries_ef (tok : list block) (a : astate) : Prop :=
+  let fs := fst (auth_world rx (hd empty_block tok) a) in
+  checks_ef (a_checks a) fs /\
+  checks_ef (b_checks (hd empty_block tok)) fs /\
+  policies_ef (a_policies a) fs /\
+  Forall (fun b => checks_ef (b_checks b) (fst (block_world rx (a_limits a) fs b))) (tl tok).
+
+Lemma authorize_hd_tl tok a : authorize rx tok a = authorize rx (hd empty_block tok :: tl tok) a.
+Proof. destruct tok as [|b bs]; reflexivity. Qed.
+
+(* [runs_ok] is exactly "the verdict is not a run error" *)
+Lemma runs_ok_iff tok a : runs_ok tok a <-> forall e, snd (authorize rx tok a) <> VRunError e.
+Proof.
+  unfold runs_ok. rewrite authorize_hd_tl, authorize_cons.
+  destruct (auth_world rx (hd empty_block tok) a) as [fs [e0|]] eqn:Hw; cbn [fst snd].
+  - split; [intros [H _]; discriminate H | intro H; exfalso; exact (H e0 eq_refl)].
+  - destruct (blocks_phase rx (a_limits a) fs (tl tok) 1) as [l|e1|s] eqn:Hb.
+    + split.
+      * intros _ e. unfold verdict_of. destruct (_ ++ _); [|discriminate].
+        destruct (policy_result rx fs (a_policies a)) as [[|]|]; discriminate.
+      * intros _. split; [reflexivity|]. exact (blocks_phase_ok_all rx _ _ _ _ _ Hb).
+    + split; [|intro H; exfalso; exact (H e1 eq_refl)].
+      intros [_ H] e. exfalso. clear e.
+      assert (Hall : forall i, exists l, blocks_phase rx (a_limits a) fs (tl tok) i = Ok l).
+      { clear Hb. induction H as [|b bs Hb0 H IH]; intros i; [exists []; reflexivity|].
+        rewrite blocks_phase_cons. unfold block_outcome.
+        destruct (block_world rx (a_limits a) fs b) as [w [e|]]; [discriminate Hb0|].
+        destruct (IH (i + 1)%N) as [l ->]. eexists. reflexivity. }
+      destruct (Hall 1%N) as [l Hl]. congruence.
+    + exfalso. exact (blocks_phase_no_panic rx _ _ _ _ _ Hb).
+Qed.
+
+Lemma verdict_class_verdict_of errs errs' pol pol' :
+  length errs = length errs' -> pol = pol' ->
+  verdict_class (verdict_of errs pol) = verdict_class (verdict_of errs' pol').
+Proof.
+  intros Hl ->. destruct errs as [|x l], errs' as [|x' l']; cbn [length] in Hl;
+    try discriminate Hl; [reflexivity|].
+  cbn [verdict_of verdict_class length]. rewrite Hl. reflexivity.
+Qed.
+
+(* one block on top of permuted authority-level worlds *)
+Lemma block_world_perm lim lim' fs fs' b b' w w' :
+  Permutation fs fs' -> NoDup fs -> setfree_facts fs ->
+  block_perm b b' -> block_setfree b ->
+  block_world rx lim fs b = (w, None) -> block_world rx lim' fs' b' = (w', None) ->
+  Permutation w w'.
+Proof.
+  intros Hp Hn Hsf [Hbf Hbr _] [Hsbf Hsbr] Hw Hw'. unfold block_world in *.
+  assert (Hn' : NoDup fs') by (eapply Permutation_NoDup; eassumption).
+  eapply (run_perm rx lim lim' (b_rules b) (b_rules b')); [ | exact Hsbr | | | exact Hbr | exact Hw | exact Hw'].
+  - apply fold_insert_setfree; assumption.
+  - apply fold_insert_NoDup; exact Hn.
+  - apply fold_insert_seteq_perm; try assumption.
+    apply seteq_app; apply Permutation_seteq; assumption.
+Qed.
+
+Lemma blocks_phase_perm lim lim' fs fs' bs bs' :
+  Permutation fs fs' -> NoDup fs -> setfree_facts fs ->
+  Forall2 block_perm bs bs' ->
+  Forall block_setfree bs ->
+  Forall (fun b => snd (block_world rx lim fs b) = None) bs ->
+  Forall (fun b => snd (block_world rx lim' fs' b) = None) bs' ->
+  Forall (fun b => checks_ef (b_checks b) (fst (block_world rx lim fs b))) bs ->
+  forall i i', exists l l',
+    blocks_phase rx lim fs bs i = Ok l /\ blocks_phase rx lim' fs' bs' i' = Ok l' /\
+    length l = length l'.
+Proof.
+  intros Hp Hn Hsf HF. induction HF as [|b b' bs bs' Hb HF IH]; intros Hs Hok Hok' Hef i i'.
+  - exists [], []. repeat split; reflexivity.
+  - rewrite !blocks_phase_cons. unfold block_outcome.
+    pose proof (Forall_inv Hok) as Hok1. pose proof (Forall_inv Hok') as Hok1'.
+    pose proof (Forall_inv Hef) as Hef1. cbn beta in Hok1, Hok1', Hef1.
+    destruct (block_world rx lim fs b) as [w [e|]] eqn:Hw; [discriminate Hok1|].
+    destruct (block_world rx lim' fs' b') as [w' [e|]] eqn:Hw'; [discriminate Hok1'|].
+    cbn [fst] in Hef1.
+    pose proof (block_world_perm lim lim' fs fs' b b' w w' Hp Hn Hsf Hb (Forall_inv Hs) Hw Hw') as Hpw.
+    destruct (IH (Forall_inv_tail Hs) (Forall_inv_tail Hok) (Forall_inv_tail Hok')
+                 (Forall_inv_tail Hef) (i + 1)%N (i' + 1)%N) as [l [l' [Hl [Hl' Hlen]]]].
+    rewrite Hl, Hl'. cbn [bind]. eexists. eexists. split; [reflexivity|]. split; [reflexivity|].
+    rewrite !app_length, Hlen. f_equal.
+    apply failed_checks_count_seteq; [apply Permutation_seteq; exact Hpw | exact (bp_checks _ _ Hb) | exact Hef1].
+Qed.
+
+(* the authority-level worlds *)
+Lemma auth_world_perm auth auth' a a' fs fs' :
+  block_perm auth auth' -> astate_perm a a' ->
+  setfree_facts (a_facts a) -> setfree_rules (a_rules a) -> block_setfree auth ->
+  NoDup (a_facts a) ->
+  auth_world rx auth a = (fs, None) -> auth_world rx auth' a' = (fs', None) ->
+  Permutation fs fs' /\ NoDup fs /\ setfree_facts fs.
+Proof.
+  intros [Hbf Hbr _] [Haf Har _ _ _] Hsf Hsr [Hsbf Hsbr] Hn Hw Hw'. unfold auth_world in *.
+  assert (Hn' : NoDup (a_facts a')) by (eapply Permutation_NoDup; eassumption).
+  assert (Hsf0 : setfree_facts (fold_left insert_fact (b_facts auth) (a_facts a)))
+    by (apply fold_insert_setfree; assumption).
+  assert (Hsr0 : setfree_rules (a_rules a ++ b_rules auth)) by (apply setfree_rules_app; assumption).
+  assert (Hn0 : NoDup (fold_left insert_fact (b_facts auth) (a_facts a)))
+    by (apply fold_insert_NoDup; exact Hn).
+  split; [|split].
+  - eapply (run_perm rx _ _ _ _ _ _ _ _ Hsf0 Hsr0 Hn0); [ | | exact Hw | exact Hw'].
+    + apply fold_insert_seteq_perm; try assumption.
+      apply seteq_app; apply Permutation_seteq; assumption.
+    + apply Permutation_app; assumption.
+  - eapply run_nodup_gen; eassumption.
+  - eapply run_setfree; eassumption.
+Qed.
+
+Theorem C12_permutation_cons auth auth' bs bs' a a' :
+  block_perm auth auth' -> Forall2 block_perm bs bs' -> astate_perm a a' ->
+  setfree_facts (a_facts a) -> setfree_rules (a_rules a) ->
+  block_setfree auth -> Forall block_setfree bs ->
+  NoDup (a_facts a) ->
+  runs_ok (auth :: bs) a -> runs_ok (auth' :: bs') a' ->
+  queries_ef (auth :: bs) a ->
+  verdict_class (snd (authorize rx (auth :: bs) a)) =
+  verdict_class (snd (authorize rx (auth' :: bs') a')) /\
+  Permutation (a_facts (fst (authorize rx (auth :: bs) a)))
+              (a_facts (fst (authorize rx (auth' :: bs') a'))).
+Proof.
+  intros Hauth Hbs Ha Hsf Hsr Hsa Hsbs Hn [Hok Hoks] [Hok' Hoks'] [Hef1 [Hef2 [Hef3 Hef4]]].
+  cbn [hd tl] in *. rewrite !authorize_cons.
+  destruct (auth_world rx auth a) as [fs [e|]] eqn:Hw; [discriminate Hok|].
+  destruct (auth_world rx auth' a') as [fs' [e|]] eqn:Hw'; [discriminate Hok'|].
+  cbn [fst snd] in *.
+  destruct (auth_world_perm auth auth' a a' fs fs' Hauth Ha Hsf Hsr Hsa Hn Hw Hw')
+    as [Hp [Hnf Hsff]].
+  pose proof (Permutation_seteq _ _ Hp) as Hse.
+  rewrite <- (ap_limits _ _ Ha) in *.
+  destruct (blocks_phase_perm (a_limits a) (a_limits a) fs fs' bs bs' Hp Hnf Hsff Hbs Hsbs
+              Hoks Hoks' Hef4 1%N 1%N) as [l [l' [Hl [Hl' Hlen]]]].
+  rewrite Hl, Hl'. split; [|exact Hp].
+  apply verdict_class_verdict_of.
+  - rewrite !app_length, Hlen. f_equal; [|f_equal].
+    + apply failed_checks_count_seteq; [exact Hse | exact (ap_checks _ _ Ha) | exact Hef1].
+    + apply failed_checks_count_seteq; [exact Hse | exact (bp_checks _ _ Hauth) | exact Hef2].
+  - apply policy_result_seteq; [exact Hse | exact (ap_policies _ _ Ha) | exact Hef3].
+Qed.
+
+(** 4.  C12, permutations.  [tok] and [tok'] have the same number of blocks,
+    block by block permuted; the authorizer likewise; the policy list keeps
+    its order. *)
+Theorem C12_permutation tok tok' a a' :
+  Forall2 block_perm tok tok' -> astate_perm a a' ->
+  setfree_facts (a_facts a) -> setfree_rules (a_rules a) -> Forall block_setfree tok ->
+  NoDup (a_facts a) ->
+  runs_ok tok a -> runs_ok tok' a' ->
+  queries_ef tok a ->
+  verdict_class (snd (authorize rx tok a)) = verdict_class (snd (authorize rx tok' a')) /\
+  Permutation (a_facts (fst (authorize rx tok a))) (a_facts (fst (authorize rx tok' a'))).
+Proof.
+  intros Htok Ha Hsf Hsr Hst Hn Hok Hok' Hef.
+  rewrite (authorize_hd_tl tok a), (authorize_hd_tl tok' a').
+  apply C12_permutation_cons; try assumption.
+  - destruct Htok as [|b b' bs bs' Hb Hbs]; [apply block_perm_refl | exact Hb].
+  - destruct Htok as [|b b' bs bs' Hb Hbs]; [constructor | exact Hbs].
+  - destruct Hst as [|b bs Hb Hbs]; [exact block_setfree_empty | exact Hb].
+  - destruct Hst as [|b bs Hb Hbs]; [constructor | exact Hbs].
+Qed.
+
+(* the authority-only case, as a named corollary *)
+Corollary C12_permutation_authority auth auth' a a' :
+  block_perm auth auth' -> astate_perm a a' ->
+  setfree_facts (a_facts a) -> setfree_rules (a_rules a) -> block_setfree auth ->
+  NoDup (a_facts a) ->
+  runs_ok [auth] a -> runs_ok [auth'] a' ->
+  queries_ef [auth] a ->
+  verdict_class (snd (authorize rx [auth] a)) = verdict_class (snd (authorize rx [auth'] a')) /\
+  Permutation (a_facts (fst (authorize rx [auth] a))) (a_facts (fst (authorize rx [auth'] a'))).
+Proof.
+  intros Hauth Ha Hsf Hsr Hsa Hn Hok Hok' Hef.
+  apply C12_permutation_cons; try assumption; constructor.
+Qed.
+
+(* ------------------------------------------------------------------ *)
+(** * 5. C12, duplicates *)
+
+(** adding the same authorizer fact twice is a no-op (unconditionally) *)
+Theorem C12_duplicate a f : add_fact (add_fact a f) f = add_fact a f.
+Proof. unfold add_fact. cbn [a_facts a_rules a_checks a_policies a_dirty a_limits].
+  rewrite insert_fact_idem. reflexivity. Qed.
+
+(* more generally: adding a fact that is present is a no-op *)
+Theorem C12_duplicate_present a f : In f (a_facts a) -> add_fact a f = a.
+Proof.
+  intro H. unfold add_fact. rewrite (insert_present _ _ H). destruct a; reflexivity.
+Qed.
+
+(** a fact occurring twice in a block: the whole of [authorize] is unchanged
+    (state and verdict), unconditionally.  Authority block: *)
+Theorem C12_duplicate_authority_fact l1 l2 l3 f rs cs bs a :
+  authorize rx ({| b_facts := l1 ++ f :: l2 ++ f :: l3; b_rules := rs; b_checks := cs |} :: bs) a =
+  authorize rx ({| b_facts := l1 ++ f :: l2 ++ l3; b_rules := rs; b_checks := cs |} :: bs) a.
+Proof.
+  rewrite !authorize_cons. unfold auth_world. cbn [b_facts b_rules b_checks].
+  rewrite fold_insert_dup. reflexivity.
+Qed.
+
+(* later block *)
+Theorem C12_duplicate_block_fact lim fs l1 l2 l3 f rs cs i :
+  block_outcome rx lim fs {| b_facts := l1 ++ f :: l2 ++ f :: l3; b_rules := rs; b_checks := cs |} i =
+  block_outcome rx lim fs {| b_facts := l1 ++ f :: l2 ++ l3; b_rules := rs; b_checks := cs |} i.
+Proof.
+  unfold block_outcome, block_world. cbn [b_facts b_rules b_checks].
+  rewrite fold_insert_dup. reflexivity.
+Qed.
+
+(** an authorizer fact that the authority block also carries (or conversely):
+    the loaded world is the same set, the closed world a permutation.  Stated
+    for arbitrary fact lists with the same union. *)
+Theorem C12_duplicate_world lim lim' rules l l' fs fs' w w' :
+  setfree_facts fs -> setfree_facts l -> setfree_rules rules -> NoDup fs -> NoDup fs' ->
+  seteq (fs ++ l) (fs' ++ l') ->
+  run rx lim rules (fold_left insert_fact l fs) = (w, None) ->
+  run rx lim' rules (fold_left insert_fact l' fs') = (w', None) ->
+  Permutation w w'.
+Proof.
+  intros Hfs Hl Hr Hn Hn' He Hw Hw'.
+  eapply (run_perm rx lim lim' rules rules); [ | exact Hr | | | apply Permutation_refl | exact Hw | exact Hw'].
+  - apply fold_insert_setfree; assumption.
+  - apply fold_insert_NoDup; exact Hn.
+  - apply fold_insert_seteq_perm; assumption.
+Qed.
+
+Corollary C12_duplicate_authorizer_fact auth a f w w' :
+  setfree_facts (a_facts a) -> setfree_rules (a_rules a) -> block_setfree auth -> NoDup (a_facts a) ->
+  In f (b_facts auth) ->
+  auth_world rx auth a = (w, None) -> auth_world rx auth (add_fact a f) = (w', None) ->
+  Permutation w w'.
+Proof.
+  intros Hsf Hsr [Hsbf Hsbr] Hn Hf Hw Hw'. unfold auth_world, add_fact in *.
+  cbn [a_facts a_rules a_limits] in Hw'.
+  eapply C12_duplicate_world; [exact Hsf | exact Hsbf | | exact Hn | | | exact Hw | exact Hw'].
+  - apply setfree_rules_app; assumption.
+  - apply insert_fact_NoDup. exact Hn.
+  - intro x. rewrite !in_app_iff. split.
+    + intros [H|H]; [left; apply insert_fact_incl; exact H | right; exact H].
+    + intros [H|H]; [|right; exact H].
+      apply insert_fact_in_inv in H as [H|H]; [left; exact H | right; subst x; exact Hf].
+Qed.
+
+(* ------------------------------------------------------------------ *)
+(** * 6. C12, repetition *)
+
+Lemma apply_rules_no_err rs fs :
+  (forall r, In r rs -> snd (apply_rule rx r fs []) = None) ->
+  forall acc, snd (apply_rules rx rs fs acc) = None.
+Proof.
+  induction rs as [|r rs IH]; intros H acc; [reflexivity|].
+  rewrite apply_rules_cons.
+  pose proof (H r (or_introl eq_refl)) as Hr. unfold apply_rule in *.
+  rewrite (consume_err_indep rx r (combos (r_body r) fs) [] acc) in Hr.
+  destruct (consume rx r (combos (r_body r) fs) acc) as [acc1 [e1|]]; [discriminate Hr|].
+  apply IH. intros r0 Hr0. apply H. right. exact Hr0.
+Qed.
+
+(* a world closed under the rules is left as it is, literally *)
+Definition closed_under (rs : list rule) (fs : list pred) : Prop :=
+  forall r c b f, In r rs -> In c (combos (r_body r) fs) -> fires rx r c b f -> In f fs.
+
+Lemma closed_round rs fs nf e :
+  closed_under rs fs -> apply_rules rx rs fs [] = (nf, e) -> insert_all fs nf = fs.
+Proof.
+  intros Hc Ha. apply insert_all_noop. intros f Hf.
+  destruct (apply_rules_in rx _ _ _ _ _ Ha f Hf) as [[]|[r [c [b [Hr [Hcm Hfi]]]]]].
+  eapply Hc; eassumption.
+Qed.
+
+Lemma run_closed_ok lim rs fs :
+  closed_under rs fs ->
+  (forall r, In r rs -> snd (apply_rule rx r fs []) = None) ->
+  (lenN fs < max_facts lim)%N -> max_iterations lim <> 0%N ->
+  run rx lim rs fs = (fs, None).
+Proof.
+  intros Hc Hno Hlt Hit. unfold run.
+  destruct (N.to_nat (max_iterations lim)) as [|n] eqn:Hn; [lia|].
+  rewrite run_loop_S.
+  pose proof (apply_rules_no_err rs fs Hno []) as Herr.
+  destruct (apply_rules rx rs fs []) as [nf [e|]] eqn:Ha; [discriminate Herr|].
+  rewrite (closed_round rs fs nf None Hc Ha).
+  apply N.leb_gt in Hlt. rewrite Hlt, Nat.eqb_refl. reflexivity.
+Qed.
+
+(** 6.  After an [authorize] whose authority-level run ended without error,
+    [authorize] is idempotent: same state, same verdict — including the list
+    of failed checks, and including a run error raised by a later block.
+    No error-freeness hypothesis on the queries, no [NoDup]. *)
+Theorem C12_repeat_state tok a :
+  setfree_facts (a_facts a) -> setfree_rules (a_rules a) -> block_setfree (hd empty_block tok) ->
+  snd (auth_world rx (hd empty_block tok) a) = None ->
+  authorize rx tok (fst (authorize rx tok a)) = authorize rx tok a.
+Proof.
+  intros Hsf Hsr [Hsbf Hsbr] Hok.
+  rewrite (authorize_hd_tl tok a), (authorize_hd_tl tok).
+  set (auth := hd empty_block tok) in *. set (bs := tl tok).
+  rewrite (authorize_cons rx auth bs a).
+  destruct (auth_world rx auth a) as [fs [e|]] eqn:Hw; [discriminate Hok|]. cbn [fst].
+  assert (Hw2 : auth_world rx auth (mk_state a fs []) = (fs, None)).
+  { unfold auth_world in *. cbn [mk_state a_limits a_rules a_facts app].
+    assert (Hsf0 : setfree_facts (fold_left insert_fact (b_facts auth) (a_facts a)))
+      by (apply fold_insert_setfree; assumption).
+    assert (Hsr0 : setfree_rules (a_rules a ++ b_rules auth)) by (apply setfree_rules_app; assumption).
+    rewrite fold_insert_noop.
+    - apply run_closed_ok.
+      + intros r c b f Hr Hc Hfi.
+        eapply (run_ok_closed rx _ _ _ _ Hsf0 Hsr0 Hw r c b f); [|exact Hc|exact Hfi].
+        apply in_or_app. right. exact Hr.
+      + intros r Hr. eapply (run_ok_no_rule_error rx _ _ _ _ Hw).
+        apply in_or_app. right. exact Hr.
+      + eapply run_ok_below_max_facts. exact Hw.
+      + intro Hz. rewrite (run_max_iterations_zero rx _ _ _ Hz) in Hw. discriminate Hw.
+    - intros f Hf. eapply run_extends; [exact Hw|].
+      apply fold_insert_In; [assumption | assumption | right; exact Hf]. }
+  rewrite authorize_cons, Hw2. reflexivity.
+Qed.
+
+Theorem C12_repeat tok a :
+  setfree_facts (a_facts a) -> setfree_rules (a_rules a) -> block_setfree (hd empty_block tok) ->
+  (forall e, snd (authorize rx tok a) <> VRunError e) ->
+  snd (authorize rx tok (fst (authorize rx tok a))) = snd (authorize rx tok a).
+Proof.
+  intros Hsf Hsr Hsb Hne. rewrite C12_repeat_state; try assumption; [reflexivity|].
+  apply runs_ok_iff in Hne. exact (proj1 Hne).
+Qed.
+
+(* any number of repetitions *)
+Fixpoint authorize_times (n : nat) (tok : list block) (a : astate) : astate :=
+  match n with
+  | O => a
+  | S n' => fst (authorize rx tok (authorize_times n' tok a))
+  end.
+
+Corollary C12_repeat_n tok a n :
+  setfree_facts (a_facts a) -> setfree_rules (a_rules a) -> block_setfree (hd empty_block tok) ->
+  snd (auth_world rx (hd empty_block tok) a) = None ->
+  authorize rx tok (authorize_times n tok a) = authorize rx tok a.
+Proof.
+  intros Hsf Hsr Hsb Hok. induction n as [|n IH]; [reflexivity|].
+  cbn [authorize_times]. rewrite IH. apply C12_repeat_state; assumption.
+Qed.
+
+(* ------------------------------------------------------------------ *)
+(** * 8. C04 composed with C05: the worlds of [authorize] are least models *)
+
+Lemma auth_world_least_model auth a fs :
+  setfree_facts (a_facts a) -> setfree_rules (a_rules a) -> block_setfree auth ->
+  auth_world rx auth a = (fs, None) ->
+  (forall f, In f fs <->
+     Derivable rx (a_rules a ++ b_rules auth) (fold_left insert_fact (b_facts auth) (a_facts a)) f)
+  /\ setfree_facts fs /\ (NoDup (a_facts a) -> NoDup fs).
+Proof.
+  intros Hsf Hsr [Hsbf Hsbr] Hw. unfold auth_world in Hw.
+  assert (Hsf0 : setfree_facts (fold_left insert_fact (b_facts auth) (a_facts a)))
+    by (apply fold_insert_setfree; assumption).
+  assert (Hsr0 : setfree_rules (a_rules a ++ b_rules auth)) by (apply setfree_rules_app; assumption).
+  split; [|split].
+  - intro f. split; [eapply run_sound; exact Hw | eapply run_complete; eassumption].
+  - eapply run_setfree; eassumption.
+  - intro Hn. eapply run_nodup_gen; [|exact Hw]. apply fold_insert_NoDup. exact Hn.
+Qed.
+
+Lemma block_world_least_model lim fs b w :
+  setfree_facts fs -> block_setfree b ->
+  block_world rx lim fs b = (w, None) ->
+  (forall f, In f w <-> Derivable rx (b_rules b) (fold_left insert_fact (b_facts b) fs) f)
+  /\ setfree_facts w /\ (NoDup fs -> NoDup w).
+Proof.
+  intros Hsf [Hsbf Hsbr] Hw. unfold block_world in Hw.
+  assert (Hsf0 : setfree_facts (fold_left insert_fact (b_facts b) fs))
+    by (apply fold_insert_setfree; assumption).
+  split; [|split].
+  - intro f. split; [eapply run_sound; exact Hw | eapply run_complete; eassumption].
+  - eapply run_setfree; eassumption.
+  - intro Hn. eapply run_nodup_gen; [|exact Hw]. apply fold_insert_NoDup. exact Hn.
+Qed.
+
+(** 8a *)
+Theorem C04_worlds_are_least_models auth a fs :
+  setfree_facts (a_facts a) -> setfree_rules (a_rules a) -> block_setfree auth ->
+  auth_world rx auth a = (fs, None) ->
+  (forall f, In f fs <->
+     Derivable rx (a_rules a ++ b_rules auth) (fold_left insert_fact (b_facts auth) (a_facts a)) f)
+  /\
+  (forall lim b w, block_setfree b -> block_world rx lim fs b = (w, None) ->
+     forall f, In f w <-> Derivable rx (b_rules b) (fold_left insert_fact (b_facts b) fs) f).
+Proof.
+  intros Hsf Hsr Hsb Hw.
+  destruct (auth_world_least_model auth a fs Hsf Hsr Hsb Hw) as [Hm [Hsfs _]].
+  split; [exact Hm|]. intros lim b w Hb Hbw.
+  exact (proj1 (block_world_least_model lim fs b w Hsfs Hb Hbw)).
+Qed.
+
+(* ---- a base given as a predicate, so that the specification below mentions
+        neither [insert_fact] nor any computed list ---- *)
+
+Inductive DerivableP (rules : list rule) (B : pred -> Prop) : pred -> Prop :=
+| DP_base f : B f -> DerivableP rules B f
+| DP_rule r c b f :
+    In r rules ->
+    Forall (DerivableP rules B) c ->
+    Forall2 (fun g p => pred_match g p = true) c (r_body r) ->
+    bind_all (r_body r) c [] = Some b ->
+    eval_exprs rx (r_exprs r) b = Ok true ->
+    inst_head (r_head r) b = Some f ->
+    DerivableP rules B f.
+
+Section DerivablePInd.
+  Variable rules : list rule.
+  Variable B : pred -> Prop.
+  Variable P : pred -> Prop.
+  Hypothesis Hbase : forall f, B f -> P f.
+  Hypothesis Hrule : forall r c b f,
+    In r rules -> Forall P c ->
+    Forall2 (fun g p => pred_match g p = true) c (r_body r) ->
+    bind_all (r_body r) c [] = Some b ->
+    eval_exprs rx (r_exprs r) b = Ok true ->
+    inst_head (r_head r) b = Some f ->
+    P f.
+
+  Lemma DerivableP_strong_ind : forall f, DerivableP rules B f -> P f.
+  Proof.
+    fix IH 2. intros f d. destruct d as [f H | r c b f Hr Hc Hm Hb He Hh].
+    - apply Hbase; exact H.
+    - assert (Hall : Forall P c).
+      { clear Hr Hm Hb He Hh. revert c Hc. fix IHc 2. intros c Hc.
+        destruct Hc as [|x l Hx Hl].
+        - constructor.
+        - constructor; [apply IH; exact Hx | apply IHc; exact Hl]. }
+      eapply Hrule; eassumption.
+  Qed.
+End DerivablePInd.
+
+Lemma DerivableP_mono rules (B B' : pred -> Prop) :
+  (forall g, B g -> B' g) -> forall f, DerivableP rules B f -> DerivableP rules B' f.
+Proof.
+  intro Hi. apply DerivableP_strong_ind.
+  - intros f Hf. apply DP_base. apply Hi. exact Hf.
+  - intros r c b f Hr Hall Hm Hb He Hh. eapply DP_rule; eassumption.
+Qed.
+
+Lemma DerivableP_ext rules (B B' : pred -> Prop) :
+  (forall g, B g <-> B' g) -> forall f, DerivableP rules B f <-> DerivableP rules B' f.
+Proof. intros H f. split; apply DerivableP_mono; intros g Hg; apply H; exact Hg. Qed.
+
+Lemma Derivable_DerivableP rules facts f :
+  Derivable rx rules facts f <-> DerivableP rules (fun g => In g facts) f.
+Proof.
+  split.
+  - revert f. apply Derivable_strong_ind.
+    + intros f Hf. apply DP_base. exact Hf.
+    + intros r c b f Hr _ Hall Hm Hb He Hh. eapply DP_rule; eassumption.
+  - revert f. apply DerivableP_strong_ind.
+    + intros f Hf. apply D_base. exact Hf.
+    + intros r c b f Hr Hall Hm Hb He Hh. eapply D_rule; eassumption.
+Qed.
+
+(* the two scopes, declaratively *)
+Definition auth_model (auth : block) (a : astate) : pred -> Prop :=
+  DerivableP (a_rules a ++ b_rules auth) (fun g => In g (a_facts a) \/ In g (b_facts auth)).
+
+Definition block_model (M0 : pred -> Prop) (b : block) : pred -> Prop :=
+  DerivableP (b_rules b) (fun g => M0 g \/ In g (b_facts b)).
+
+Lemma auth_world_model auth a fs :
+  setfree_facts (a_facts a) -> setfree_rules (a_rules a) -> block_setfree auth ->
+  auth_world rx auth a = (fs, None) ->
+  forall f, In f fs <-> auth_model auth a f.
+Proof.
+  intros Hsf Hsr Hsb Hw f.
+  rewrite (proj1 (auth_world_least_model auth a fs Hsf Hsr Hsb Hw) f), Derivable_DerivableP.
+  apply DerivableP_ext. intro g. apply fold_insert_In; [exact Hsf | exact (proj1 Hsb)].
+Qed.
+
+Lemma block_world_model lim fs (M0 : pred -> Prop) b w :
+  setfree_facts fs -> block_setfree b -> (forall g, In g fs <-> M0 g) ->
+  block_world rx lim fs b = (w, None) ->
+  forall f, In f w <-> block_model M0 b f.
+Proof.
+  intros Hsf Hsb HM Hw f.
+  rewrite (proj1 (block_world_least_model lim fs b w Hsf Hsb Hw) f), Derivable_DerivableP.
+  apply DerivableP_ext. intro g. rewrite (fold_insert_In (b_facts b) fs g Hsf (proj1 Hsb)), (HM g).
+  reflexivity.
+Qed.
+
+(* ---- the specification of the verdict ---- *)
+
+Definition check_sat (M : pred -> Prop) (c : check) : Prop := exists q, In q c /\ sat_on M q.
+
+Inductive spec_failed (M : pred -> Prop) (o : origin) : list check -> N -> list (origin * N) -> Prop :=
+| sf_nil i : spec_failed M o [] i []
+| sf_ok c cs i l :
+    check_sat M c -> spec_failed M o cs (i + 1)%N l -> spec_failed M o (c :: cs) i l
+| sf_ko c cs i l :
+    ~ check_sat M c -> spec_failed M o cs (i + 1)%N l -> spec_failed M o (c :: cs) i ((o, i) :: l).
+
+Inductive spec_policy (M : pred -> Prop) : list policy -> option pkind -> Prop :=
+| sp_nil : spec_policy M [] None
+| sp_hit p ps : check_sat M (pol_queries p) -> spec_policy M (p :: ps) (Some (pol_kind p))
+| sp_skip p ps k :
+    ~ check_sat M (pol_queries p) -> spec_policy M ps k -> spec_policy M (p :: ps) k.
+
+Inductive spec_blocks (M0 : pred -> Prop) : list block -> N -> list (origin * N) -> Prop :=
+| sb_nil i : spec_blocks M0 [] i []
+| sb_cons b bs i l rest :
+    spec_failed (block_model M0 b) (FromBlock i) (b_checks b) 0%N l ->
+    spec_blocks M0 bs (i + 1)%N rest ->
+    spec_blocks M0 (b :: bs) i (l ++ rest).
+
+(* check failure takes precedence over the policy result; [verdict_of] is that rule *)
+Definition spec_verdict (auth : block) (bs : list block) (a : astate) (v : verdict) : Prop :=
+  exists l1 l2 l3 k,
+    spec_failed (auth_model auth a) FromAuthorizer (a_checks a) 0%N l1 /\
+    spec_failed (auth_model auth a) (FromBlock 0) (b_checks auth) 0%N l2 /\
+    spec_blocks (auth_model auth a) bs 1%N l3 /\
+    spec_policy (auth_model auth a) (a_policies a) k /\
+    v = verdict_of (l1 ++ l2 ++ l3) k.
+
+Lemma spec_failed_fun M o cs : forall i l l',
+  spec_failed M o cs i l -> spec_failed M o cs i l' -> l = l'.
+Proof.
+  induction cs as [|c cs IH]; intros i l l' H H'.
+  - inversion H; inversion H'; subst. reflexivity.
+  - inversion H as [|c0 cs0 i0 l0 Hs Hr|c0 cs0 i0 l0 Hs Hr]; subst;
+      inversion H' as [|c1 cs1 i1 l1 Hs' Hr'|c1 cs1 i1 l1 Hs' Hr']; subst.
+    + eapply IH; eassumption.
+    + exfalso. exact (Hs' Hs).
+    + exfalso. exact (Hs Hs').
+    + f_equal. eapply IH; eassumption.
+Qed.
+
+Lemma spec_policy_fun M ps : forall k k', spec_policy M ps k -> spec_policy M ps k' -> k = k'.
+Proof.
+  induction ps as [|p ps IH]; intros k k' H H'.
+  - inversion H; inversion H'; subst. reflexivity.
+  - inversion H as [|p0 ps0 Hs|p0 ps0 k0 Hs Hr]; subst;
+      inversion H' as [|p1 ps1 Hs'|p1 ps1 k1 Hs' Hr']; subst.
+    + reflexivity.
+    + exfalso. exact (Hs' Hs).
+    + exfalso. exact (Hs Hs').
+    + eapply IH; eassumption.
+Qed.
+
+Lemma spec_blocks_fun M0 bs : forall i l l', spec_blocks M0 bs i l -> spec_blocks M0 bs i l' -> l = l'.
+Proof.
+  induction bs as [|b bs IH]; intros i l l' H H'.
+  - inversion H; inversion H'; subst. reflexivity.
+  - inversion H as [|b0 bs0 i0 l0 r0 Hf Hr]; subst.
+    inversion H' as [|b1 bs1 i1 l1 r1 Hf' Hr']; subst.
+    rewrite (spec_failed_fun _ _ _ _ _ _ Hf Hf'), (IH _ _ _ Hr Hr'). reflexivity.
+Qed.
+
+Lemma spec_verdict_fun auth bs a v v' : spec_verdict auth bs a v -> spec_verdict auth bs a v' -> v = v'.
+Proof.
+  intros [l1 [l2 [l3 [k [H1 [H2 [H3 [H4 ->]]]]]]]] [l1' [l2' [l3' [k' [H1' [H2' [H3' [H4' ->]]]]]]]].
+  rewrite (spec_failed_fun _ _ _ _ _ _ H1 H1'), (spec_failed_fun _ _ _ _ _ _ H2 H2'),
+    (spec_blocks_fun _ _ _ _ _ H3 H3'), (spec_policy_fun _ _ _ _ H4 H4'). reflexivity.
+Qed.
+
+(* the computed results meet the specification *)
+Lemma check_holds_sat fs (M : pred -> Prop) c :
+  (forall g, In g fs <-> M g) -> check_ef c fs ->
+  (check_holds rx fs c = true <-> check_sat M c).
+Proof.
+  intros HM Hef. rewrite (C04_or_is_disjunction rx fs c). unfold check_sat.
+  split; intros [q [Hq H]]; exists q; (split; [exact Hq|]).
+  - apply (query_nonempty_iff q fs (Hef q Hq)) in H.
+    eapply sat_on_incl; [|exact H]. intros g Hg. apply HM. exact Hg.
+  - apply (query_nonempty_iff q fs (Hef q Hq)).
+    eapply sat_on_incl; [|exact H]. intros g Hg. apply HM. exact Hg.
+Qed.
+
+Lemma failed_checks_spec fs (M : pred -> Prop) o cs :
+  (forall g, In g fs <-> M g) -> checks_ef cs fs ->
+  forall i, spec_failed M o cs i (failed_checks rx o fs cs i).
+Proof.
+  intros HM. induction cs as [|c cs IH]; intros Hef i; cbn [failed_checks]; [constructor|].
+  assert (Hefc : check_ef c fs) by (apply Hef; left; reflexivity).
+  assert (Hefr : checks_ef cs fs) by (intros c0 Hc0; apply Hef; right; exact Hc0).
+  pose proof (check_holds_sat fs M c HM Hefc) as Hiff.
+  destruct (check_holds rx fs c); cbn [app].
+  - apply sf_ok; [apply Hiff; reflexivity | apply IH; exact Hefr].
+  - apply sf_ko; [|apply IH; exact Hefr]. intro Hs. apply Hiff in Hs. discriminate Hs.
+Qed.
+
+Lemma policy_result_spec fs (M : pred -> Prop) ps :
+  (forall g, In g fs <-> M g) -> policies_ef ps fs ->
+  spec_policy M ps (policy_result rx fs ps).
+Proof.
+  intros HM. induction ps as [|p ps IH]; intros Hef; cbn [policy_result]; [constructor|].
+  pose proof (check_holds_sat fs M (pol_queries p) HM (Hef p (or_introl eq_refl))) as Hiff.
+  assert (Hefr : policies_ef ps fs) by (intros p0 Hp0; apply Hef; right; exact Hp0).
+  destruct (check_holds rx fs (pol_queries p)).
+  - apply sp_hit. apply Hiff. reflexivity.
+  - apply sp_skip; [|apply IH; exact Hefr]. intro Hs. apply Hiff in Hs. discriminate Hs.
+Qed.
+
+Lemma blocks_phase_spec lim fs (M0 : pred -> Prop) bs :
+  setfree_facts fs -> (forall g, In g fs <-> M0 g) ->
+  Forall block_setfree bs ->
+  Forall (fun b => snd (block_world rx lim fs b) = None) bs ->
+  Forall (fun b => checks_ef (b_checks b) (fst (block_world rx lim fs b))) bs ->
+  forall i, exists l, blocks_phase rx lim fs bs i = Ok l /\ spec_blocks M0 bs i l.
+Proof.
+  intros Hsf HM. induction bs as [|b bs IH]; intros Hs Hok Hef i.
+  - exists []. split; [reflexivity | constructor].
+  - rewrite blocks_phase_cons. unfold block_outcome.
+    pose proof (Forall_inv Hok) as Hok1. pose proof (Forall_inv Hef) as Hef1. cbn beta in Hok1, Hef1.
+    destruct (block_world rx lim fs b) as [w [e|]] eqn:Hw; [discriminate Hok1|]. cbn [fst] in Hef1.
+    destruct (IH (Forall_inv_tail Hs) (Forall_inv_tail Hok) (Forall_inv_tail Hef) (i + 1)%N)
+      as [rest [Hr Hsp]].
+    rewrite Hr. cbn [bind]. eexists. split; [reflexivity|].
+    apply sb_cons; [|exact Hsp].
+    apply failed_checks_spec; [|exact Hef1].
+    exact (block_world_model lim fs M0 b w Hsf (Forall_inv Hs) HM Hw).
+Qed.
+
+(** 8b.  C04: in the fragment the verdict is the one the declarative
+    specification determines, and only that one. *)
+Theorem C04_verdict_spec auth bs a :
+  setfree_facts (a_facts a) -> setfree_rules (a_rules a) ->
+  block_setfree auth -> Forall block_setfree bs ->
+  runs_ok (auth :: bs) a -> queries_ef (auth :: bs) a ->
+  forall v, spec_verdict auth bs a v <-> v = snd (authorize rx (auth :: bs) a).
+Proof.
+  intros Hsf Hsr Hsa Hsbs [Hok Hoks] [Hef1 [Hef2 [Hef3 Hef4]]]. cbn [hd tl] in *.
+  assert (Hspec : spec_verdict auth bs a (snd (authorize rx (auth :: bs) a))).
+  { rewrite authorize_cons.
+    destruct (auth_world rx auth a) as [fs [e|]] eqn:Hw; [discriminate Hok|]. cbn [fst snd] in *.
+    pose proof (auth_world_model auth a fs Hsf Hsr Hsa Hw) as HM.
+    destruct (auth_world_least_model auth a fs Hsf Hsr Hsa Hw) as [_ [Hsfs _]].
+    destruct (blocks_phase_spec (a_limits a) fs (auth_model auth a) bs Hsfs HM Hsbs Hoks Hef4 1%N)
+      as [l3 [Hl3 Hsp3]].
+    rewrite Hl3. unfold spec_verdict.
+    exists (failed_checks rx FromAuthorizer fs (a_checks a) 0%N),
+           (failed_checks rx (FromBlock 0) fs (b_checks auth) 0%N), l3,
+           (policy_result rx fs (a_policies a)).
+    split; [apply failed_checks_spec; assumption|].
+    split; [apply failed_checks_spec; assumption|].
+    split; [exact Hsp3|].
+    split; [apply policy_result_spec; assumption | reflexivity]. }
+  intro v. split.
+  - intro Hv. eapply spec_verdict_fun; eassumption.
+  - intros ->. exact Hspec.
+Qed.
+
+(* ------------------------------------------------------------------ *)
+(** * 7. C12, consistent renaming of variables
+
+    The evaluator treats as a variable only a top-level [TA (AVar _)] (a
+    variable name inside a set constant is never bound, substituted or looked
+    up), so that is what a renaming acts on.  Renaming inside set constants as
+    well is NOT semantics-preserving in this model: see
+    [rename_inside_sets_refuted] after the section. *)
+
+Definition injective (f : bytes -> bytes) : Prop := forall x y, f x = f y -> x = y.
+
+Definition rename_term (f : bytes -> bytes) (t : term) : term :=
+  match t with TA (AVar v) => TA (AVar (f v)) | _ => t end.
+Definition rename_pred (f : bytes -> bytes) (p : pred) : pred :=
+  {| p_name := p_name p; p_terms := map (rename_term f) (p_terms p) |}.
+Definition rename_op (f : bytes -> bytes) (o : op) : op :=
+  match o with OVal t => OVal (rename_term f t) | _ => o end.
+Definition rename_expr (f : bytes -> bytes) (e : expr) : expr := map (rename_op f) e.
+Definition rename_rule (f : bytes -> bytes) (r : rule) : rule :=
+  {| r_head := rename_pred f (r_head r);
+     r_body := map (rename_pred f) (r_body r);
+     r_exprs := map (rename_expr f) (r_exprs r) |}.
+Definition rename_bindings (f : bytes -> bytes) (b : bindings) : bindings :=
+  map (fun kv => (f (fst kv), snd kv)) b.
+
+Section Rename.
+Variable f : bytes -> bytes.
+Hypothesis f_inj : injective f.
+
+Lemma bytes_eqb_inj x y : bytes_eqb (f x) (f y) = bytes_eqb x y.
+Proof.
+  destruct (bytes_eqb x y) eqn:E.
+  - apply bytes_eqb_eq in E. subst y. apply bytes_eqb_refl.
+  - destruct (bytes_eqb (f x) (f y)) eqn:E'; [|reflexivity].
+    apply bytes_eqb_eq in E'. apply f_inj in E'. subst y.
+    rewrite bytes_eqb_refl in E. discriminate E.
+Qed.
+
+Lemma lookup_rename b k : lookup (rename_bindings f b) (f k) = lookup b k.
+Proof.
+  induction b as [|[k0 t0] b IH]; [reflexivity|].
+  cbn [rename_bindings map lookup fst snd]. rewrite bytes_eqb_inj.
+  destruct (bytes_eqb k0 k); [reflexivity | exact IH].
+Qed.
+
+Lemma rename_bindings_app b b' :
+  rename_bindings f (b ++ b') = rename_bindings f b ++ rename_bindings f b'.
+Proof. apply map_app. Qed.
+
+Lemma terms_match_rename ft : forall pt,
+  terms_match ft (map (rename_term f) pt) = terms_match ft pt.
+Proof.
+  induction ft as [|x ft IH]; intros [|y pt]; cbn [map terms_match]; try reflexivity.
+  rewrite IH. destruct y as [[v|z|s|d|bs|bo]|l]; cbn [rename_term is_var]; try reflexivity.
+  rewrite !Bool.orb_true_r. reflexivity.
+Qed.
+
+Lemma pred_match_rename g p : pred_match g (rename_pred f p) = pred_match g p.
+Proof. unfold pred_match, rename_pred. cbn [p_name p_terms]. rewrite terms_match_rename. reflexivity. Qed.
+
+Lemma combos_rename ps fs : combos (map (rename_pred f) ps) fs = combos ps fs.
+Proof.
+  induction ps as [|p ps IH]; [reflexivity|]. cbn [map combos]. rewrite IH.
+  rewrite (filter_ext _ _ (fun g => pred_match_rename g p)). reflexivity.
+Qed.
+
+Lemma bind_terms_rename pt : forall ft b,
+  bind_terms (map (rename_term f) pt) ft (rename_bindings f b) =
+  option_map (rename_bindings f) (bind_terms pt ft b).
+Proof.
+  induction pt as [|t pt IH]; intros ft b; [reflexivity|].
+  destruct ft as [|v ft].
+  - destruct t as [[k|z|s|d|bs|bo]|l]; reflexivity.
+  - destruct t as [[k|z|s|d|bs|bo]|l]; cbn [map rename_term bind_terms]; try apply IH.
+    rewrite lookup_rename. destruct (lookup b k) as [ex|].
+    + destruct (term_eqb v ex); [apply IH | reflexivity].
+    + rewrite <- IH, rename_bindings_app. reflexivity.
+Qed.
+
+Lemma bind_all_rename ps : forall c b,
+  bind_all (map (rename_pred f) ps) c (rename_bindings f b) =
+  option_map (rename_bindings f) (bind_all ps c b).
+Proof.
+  induction ps as [|p ps IH]; intros c b; [reflexivity|].
+  destruct c as [|g c]; [reflexivity|].
+  cbn [map bind_all rename_pred p_terms]. rewrite bind_terms_rename.
+  destruct (bind_terms (p_terms p) (p_terms g) b) as [b1|]; cbn [option_map]; [apply IH | reflexivity].
+Qed.
+
+Lemma step_rename b st o : step rx (rename_bindings f b) st (rename_op f o) = step rx b st o.
+Proof.
+  destruct o as [t|u|o]; [|reflexivity|reflexivity].
+  destruct t as [[k|z|s|d|bs|bo]|l]; cbn [rename_op rename_term step]; try reflexivity.
+  rewrite lookup_rename. reflexivity.
+Qed.
+
+Lemma run_ops_rename b e : forall st,
+  run_ops rx (rename_bindings f b) st (rename_expr f e) = run_ops rx b st e.
+Proof.
+  induction e as [|o e IH]; intros st; [reflexivity|].
+  cbn [rename_expr map run_ops]. rewrite step_rename.
+  destruct (step rx b st o) as [st'|er|s]; cbn [bind]; [apply IH | reflexivity | reflexivity].
+Qed.
+
+Lemma eval_rename b e : eval rx (rename_expr f e) (rename_bindings f b) = eval rx e b.
+Proof. unfold eval. rewrite run_ops_rename. reflexivity. Qed.
+
+Lemma eval_exprs_rename b es :
+  eval_exprs rx (map (rename_expr f) es) (rename_bindings f b) = eval_exprs rx es b.
+Proof.
+  induction es as [|e es IH]; [reflexivity|]. cbn [map eval_exprs]. rewrite eval_rename, IH.
+  reflexivity.
+Qed.
+
+Lemma inst_terms_rename b ts :
+  inst_terms (map (rename_term f) ts) (rename_bindings f b) = inst_terms ts b.
+Proof.
+  induction ts as [|t ts IH]; [reflexivity|].
+  destruct t as [[k|z|s|d|bs|bo]|l]; cbn [map rename_term inst_terms]; rewrite IH; try reflexivity.
+  rewrite lookup_rename. reflexivity.
+Qed.
+
+Lemma inst_head_rename b h : inst_head (rename_pred f h) (rename_bindings f b) = inst_head h b.
+Proof. unfold inst_head, rename_pred. cbn [p_name p_terms]. rewrite inst_terms_rename. reflexivity. Qed.
+
+Lemma tuple_out_rename r c : tuple_out rx (rename_rule f r) c = tuple_out rx r c.
+Proof.
+  unfold tuple_out, rename_rule. cbn [r_head r_body r_exprs].
+  change (@nil (bytes * term)) with (rename_bindings f []) at 1.
+  rewrite bind_all_rename.
+  destruct (bind_all (r_body r) c []) as [b|]; cbn [option_map]; [|reflexivity].
+  rewrite eval_exprs_rename, inst_head_rename. reflexivity.
+Qed.
+
+Lemma consume_rename r cs : forall acc, consume rx (rename_rule f r) cs acc = consume rx r cs acc.
+Proof.
+  induction cs as [|c cs IH]; intros acc; [reflexivity|].
+  rewrite !consume_step, tuple_out_rename.
+  destruct (tuple_out rx r c) as [|g|e]; [apply IH | apply IH | reflexivity].
+Qed.
+
+(** 7a *)
+Theorem apply_rule_rename r fs acc :
+  apply_rule rx (rename_rule f r) fs acc = apply_rule rx r fs acc.
+Proof.
+  unfold apply_rule. cbn [rename_rule r_body]. rewrite combos_rename. apply consume_rename.
+Qed.
+
+Theorem query_rule_rename q fs : query_rule rx (rename_rule f q) fs = query_rule rx q fs.
+Proof. unfold query_rule. rewrite apply_rule_rename. reflexivity. Qed.
+
+End Rename.
+
+(* each rule may use its own renaming *)
+Definition alpha_rule (r r' : rule) : Prop := exists f, injective f /\ r' = rename_rule f r.
+Definition alpha_check (c c' : check) : Prop := Forall2 alpha_rule c c'.
+Definition alpha_policy (p p' : policy) : Prop :=
+  pol_kind p = pol_kind p' /\ Forall2 alpha_rule (pol_queries p) (pol_queries p').
+Record alpha_block (b b' : block) : Prop := {
+  ab_facts : b_facts b = b_facts b';
+  ab_rules : Forall2 alpha_rule (b_rules b) (b_rules b');
+  ab_checks : Forall2 alpha_check (b_checks b) (b_checks b') }.
+Record alpha_astate (a a' : astate) : Prop := {
+  aa_facts : a_facts a = a_facts a';
+  aa_rules : Forall2 alpha_rule (a_rules a) (a_rules a');
+  aa_checks : Forall2 alpha_check (a_checks a) (a_checks a');
+  aa_policies : Forall2 alpha_policy (a_policies a) (a_policies a');
+  aa_limits : a_limits a = a_limits a' }.
+
+Lemma apply_rules_alpha rs rs' fs :
+  Forall2 alpha_rule rs rs' -> forall acc, apply_rules rx rs' fs acc = apply_rules rx rs fs acc.
+Proof.
+  intro H. induction H as [|r r' rs rs' [f [Hf ->]] H IH]; intros acc; [reflexivity|].
+  rewrite !apply_rules_cons, (apply_rule_rename f Hf).
+  destruct (apply_rule rx r fs acc) as [acc1 [e|]]; [reflexivity | apply IH].
+Qed.
+
+Lemma run_alpha lim rs rs' fs : Forall2 alpha_rule rs rs' -> run rx lim rs' fs = run rx lim rs fs.
+Proof.
+  intro H. unfold run. generalize (N.to_nat (max_iterations lim)) as fuel. intro fuel. revert fs.
+  induction fuel as [|fuel IH]; intros fs; [reflexivity|].
+  rewrite !run_loop_S, (apply_rules_alpha rs rs' fs H).
+  destruct (apply_rules rx rs fs []) as [nf [e|]]; [reflexivity|]. rewrite IH. reflexivity.
+Qed.
+
+Lemma check_holds_alpha fs c c' : alpha_check c c' -> check_holds rx fs c' = check_holds rx fs c.
+Proof.
+  intro H. unfold check_holds. induction H as [|q q' c c' [f [Hf ->]] H IH]; [reflexivity|].
+  cbn [existsb]. rewrite (query_rule_rename f Hf), IH. reflexivity.
+Qed.
+
+Lemma failed_checks_alpha o fs cs cs' :
+  Forall2 alpha_check cs cs' -> forall i, failed_checks rx o fs cs' i = failed_checks rx o fs cs i.
+Proof.
+  intro H. induction H as [|c c' cs cs' Hc H IH]; intros i; [reflexivity|].
+  cbn [failed_checks]. rewrite (check_holds_alpha fs c c' Hc), IH. reflexivity.
+Qed.
+
+Lemma policy_result_alpha fs ps ps' :
+  Forall2 alpha_policy ps ps' -> policy_result rx fs ps' = policy_result rx fs ps.
+Proof.
+  intro H. induction H as [|p p' ps ps' [Hk Hq] H IH]; [reflexivity|].
+  cbn [policy_result]. rewrite (check_holds_alpha fs _ _ Hq), IH, Hk. reflexivity.
+Qed.
+
+Lemma blocks_phase_alpha lim fs bs bs' :
+  Forall2 alpha_block bs bs' -> forall i, blocks_phase rx lim fs bs' i = blocks_phase rx lim fs bs i.
+Proof.
+  intro H. induction H as [|b b' bs bs' [Hf Hr Hc] H IH]; intros i; [reflexivity|].
+  cbn [blocks_phase]. rewrite <- Hf, (run_alpha lim _ _ _ Hr).
+  destruct (run rx lim (b_rules b) (fold_left insert_fact (b_facts b) fs)) as [w [e|]]; [reflexivity|].
+  rewrite IH, (failed_checks_alpha _ w _ _ Hc). reflexivity.
+Qed.
+
+(** 7b.  Consistent renaming everywhere: same verdict (exactly), same world.
+    No fragment hypothesis at all. *)
+Theorem C12_alpha tok tok' a a' :
+  Forall2 alpha_block tok tok' -> alpha_astate a a' ->
+  snd (authorize rx tok' a') = snd (authorize rx tok a) /\
+  a_facts (fst (authorize rx tok' a')) = a_facts (fst (authorize rx tok a)).
+Proof.
+  intros Htok [Hf Hr Hc Hp Hl].
+  assert (Hhd : alpha_block (hd empty_block tok) (hd empty_block tok')).
+  { destruct Htok as [|b b' bs bs' Hb Hbs]; [|exact Hb]. split; constructor. }
+  assert (Htl : Forall2 alpha_block (tl tok) (tl tok')).
+  { destruct Htok as [|b b' bs bs' Hb Hbs]; [constructor | exact Hbs]. }
+  rewrite (authorize_hd_tl tok a), (authorize_hd_tl tok' a'), !authorize_cons.
+  destruct Hhd as [Hbf Hbr Hbc]. unfold auth_world.
+  rewrite <- Hl, <- Hf, <- Hbf.
+  rewrite (run_alpha (a_limits a) (a_rules a ++ b_rules (hd empty_block tok))
+             (a_rules a' ++ b_rules (hd empty_block tok')) _ (Forall2_app Hr Hbr)).
+  destruct (run rx (a_limits a) (a_rules a ++ b_rules (hd empty_block tok))
+              (fold_left insert_fact (b_facts (hd empty_block tok)) (a_facts a))) as [fs [e|]];
+    cbn [fst snd mk_state a_facts]; [split; reflexivity|].
+  split; [|reflexivity].
+  rewrite (blocks_phase_alpha _ fs _ _ Htl), (failed_checks_alpha _ fs _ _ Hc),
+    (failed_checks_alpha _ fs _ _ Hbc), (policy_result_alpha fs _ _ Hp). reflexivity.
+Qed.
+
+(* ------------------------------------------------------------------ *)
+(** * Deciding the hypotheses on concrete data, and a canonical reshuffle *)
+
+Definition tuple_ef_b (r : rule) (c : list pred) : bool :=
+  match tuple_out rx r c with TStop _ => false | _ => true end.
+Definition rule_ef_b (r : rule) (fs : list pred) : bool :=
+  forallb (tuple_ef_b r) (combos (r_body r) fs).
+Definition checks_ef_b (cs : list check) (fs : list pred) : bool :=
+  forallb (fun c => forallb (fun q => rule_ef_b q fs) c) cs.
+
+Lemma rule_ef_b_iff r fs : rule_ef_b r fs = true <-> rule_ef r fs.
+Proof.
+  unfold rule_ef_b. rewrite forallb_forall. split.
+  - intros H c b Ha Hm Hb.
+    assert (Hc : In c (combos (r_body r) fs)) by (apply combos_in; split; assumption).
+    specialize (H c Hc). unfold tuple_ef_b, tuple_out in H. rewrite Hb in H.
+    destruct (eval_exprs rx (r_exprs r) b) as [[|]|e|s].
+    + destruct (inst_head (r_head r) b) as [h|]; [|discriminate H].
+      split; [eexists; reflexivity | intros _; discriminate].
+    + split; [eexists; reflexivity | discriminate].
+    + discriminate H.
+    + discriminate H.
+  - intros Hef c Hc. apply combos_in in Hc as [Ha Hm].
+    unfold tuple_ef_b. destruct (tuple_out rx r c) as [|g|e] eqn:Ht; try reflexivity.
+    exfalso. apply tuple_out_stop in Ht as [b [Hb Hcase]].
+    destruct (Hef c b Ha Hm Hb) as [[v Hv] Hi].
+    destruct Hcase as [[He _]|[He [Hh _]]]; [congruence | exact (Hi He Hh)].
+Qed.
+
+Lemma checks_ef_b_ok cs fs : checks_ef_b cs fs = true -> checks_ef cs fs.
+Proof.
+  unfold checks_ef_b. rewrite forallb_forall. intros H c Hc q Hq.
+  specialize (H c Hc). rewrite forallb_forall in H. apply rule_ef_b_iff. apply H. exact Hq.
+Qed.
+
+Definition queries_ef_b (tok : list block) (a : astate) : bool :=
+  let fs := fst (auth_world rx (hd empty_block tok) a) in
+  checks_ef_b (a_checks a) fs &&
+  checks_ef_b (b_checks (hd empty_block tok)) fs &&
+  checks_ef_b (map pol_queries (a_policies a)) fs &&
+  forallb (fun b => checks_ef_b (b_checks b) (fst (block_world rx (a_limits a) fs b))) (tl tok).
+
+Lemma queries_ef_b_ok tok a : queries_ef_b tok a = true -> queries_ef tok a.
+Proof.
+  unfold queries_ef_b, queries_ef. cbv zeta. rewrite !andb_true_iff.
+  intros [[[H1 H2] H3] H4]. split; [|split; [|split]].
+  - apply checks_ef_b_ok. exact H1.
+  - apply checks_ef_b_ok. exact H2.
+  - intros p Hp. apply (checks_ef_b_ok _ _ H3 (pol_queries p)). apply in_map. exact Hp.
+  - apply Forall_forall. intros b Hb. rewrite forallb_forall in H4.
+    apply checks_ef_b_ok. apply H4. exact Hb.
+Qed.
+
+Definition is_none {A} (o : option A) : bool := match o with None => true | Some _ => false end.
+
+Definition runs_ok_b (tok : list block) (a : astate) : bool :=
+  is_none (snd (auth_world rx (hd empty_block tok) a)) &&
+  forallb (fun b => is_none (snd (block_world rx (a_limits a)
+                                    (fst (auth_world rx (hd empty_block tok) a)) b))) (tl tok).
+
+Lemma runs_ok_b_ok tok a : runs_ok_b tok a = true -> runs_ok tok a.
+Proof.
+  unfold runs_ok_b, runs_ok. rewrite andb_true_iff. intros [H1 H2]. split.
+  - destruct (snd (auth_world rx (hd empty_block tok) a)); [discriminate H1 | reflexivity].
+  - apply Forall_forall. intros b Hb. rewrite forallb_forall in H2. specialize (H2 b Hb).
+    destruct (snd (block_world rx (a_limits a) (fst (auth_world rx (hd empty_block tok) a)) b));
+      [discriminate H2 | reflexivity].
+Qed.
+
+End Order.
+
+(* everything reversed except the order of the policy list *)
+Definition rev_check (c : check) : check := rev c.
+Definition rev_checks (cs : list check) : list check := map rev_check (rev cs).
+Definition rev_block (b : block) : block :=
+  {| b_facts := rev (b_facts b); b_rules := rev (b_rules b); b_checks := rev_checks (b_checks b) |}.
+Definition rev_policy (p : policy) : policy :=
+  {| pol_kind := pol_kind p; pol_queries := rev (pol_queries p) |}.
+Definition rev_astate (a : astate) : astate :=
+  {| a_facts := rev (a_facts a); a_rules := rev (a_rules a); a_checks := rev_checks (a_checks a);
+     a_policies := map rev_policy (a_policies a); a_dirty := a_dirty a; a_limits := a_limits a |}.
+
+Lemma checks_perm_rev cs : checks_perm cs (rev_checks cs).
+Proof.
+  exists (rev cs). split; [apply Permutation_rev|]. unfold rev_checks.
+  induction (rev cs) as [|c l IH]; constructor; [apply Permutation_rev | exact IH].
+Qed.
+
+Lemma block_perm_rev b : block_perm b (rev_block b).
+Proof. split; cbn [rev_block b_facts b_rules b_checks]; [apply Permutation_rev | apply Permutation_rev | apply checks_perm_rev]. Qed.
+
+Lemma tok_perm_rev tok : Forall2 block_perm tok (map rev_block tok).
+Proof. induction tok as [|b tok IH]; constructor; [apply block_perm_rev | exact IH]. Qed.
+
+Lemma astate_perm_rev a : astate_perm a (rev_astate a).
+Proof.
+  split; cbn [rev_astate a_facts a_rules a_checks a_policies a_limits];
+    [apply Permutation_rev | apply Permutation_rev | apply checks_perm_rev | | reflexivity].
+  induction (a_policies a) as [|p ps IH]; constructor; [|exact IH].
+  split; [reflexivity | apply Permutation_rev].
+Qed.
+
+(** C12 for the fully reversed presentation *)
+Corollary C12_reversed rx tok a :
+  setfree_facts (a_facts a) -> setfree_rules (a_rules a) -> Forall block_setfree tok ->
+  NoDup (a_facts a) ->
+  runs_ok rx tok a -> runs_ok rx (map rev_block tok) (rev_astate a) ->
+  queries_ef rx tok a ->
+  verdict_class (snd (authorize rx tok a)) =
+  verdict_class (snd (authorize rx (map rev_block tok) (rev_astate a))) /\
+  Permutation (a_facts (fst (authorize rx tok a)))
+              (a_facts (fst (authorize rx (map rev_block tok) (rev_astate a)))).
+Proof.
+  intros Hsf Hsr Hst Hn Hok Hok' Hef.
+  apply C12_permutation; try assumption; [apply tok_perm_rev | apply astate_perm_rev].
+Qed.
+
+(* ------------------------------------------------------------------ *)
+(** * Non-vacuity and boundary examples (all by vm_compute) *)
+
+Definition orx : bytes -> bytes -> option bool := fun _ _ => None.
+Definition olim : limits := {| max_facts := 1000%N; max_iterations := 100%N |}.
+
+Definition qhead : pred := {| p_name := [113%N]; p_terms := [] |}.
+Definition qry (body : list pred) (es : list expr) : rule :=
+  {| r_head := qhead; r_body := body; r_exprs := es |}.
+Definition x_gt_1 : expr := [OVal (tvar 120); OVal (tint 1); OBin BGreaterThan].
+
+(* authority: the ancestor program; two checks, the second with two alternatives *)
+Definition o_auth : block :=
+  {| b_facts := anc_facts; b_rules := anc_rules;
+     b_checks := [ [qry [ancestor (tstr 1) (tstr 4)] []];
+                   [qry [parent (tstr 9) (tstr 9)] []; qry [ancestor (tvar 120) (tstr 3)] []] ] |}.
+(* a later block: one more parent fact, the rules again, a passing and a failing check *)
+Definition o_blk : block :=
+  {| b_facts := [parent (tstr 4) (tstr 5); parent (tstr 1) (tstr 2)]; b_rules := anc_rules;
+     b_checks := [ [qry [ancestor (tstr 1) (tstr 5)] []];
+                   [qry [ancestor (tstr 5) (tstr 1)] []] ] |}.
+Definition o_tok : list block := [o_auth; o_blk].
+
+(* authorizer: facts, a rule with an expression, a passing and a failing check (with an
+   expression), a deny policy that does not match and an allow policy that does *)
+Definition o_a : astate :=
+  {| a_facts := [nfact (tint 2) (tint 2) (tint 7); nfact (tint 1) (tint 1) (tint 7)];
+     a_rules := [q_rule];
+     a_checks := [ [qry [big (tvar 120)] [x_gt_1]]; [qry [big (tint 1)] []] ];
+     a_policies := [ {| pol_kind := Deny; pol_queries := [qry [ancestor (tstr 4) (tstr 1)] []] |};
+                     {| pol_kind := Allow;
+                        pol_queries := [qry [parent (tstr 9) (tstr 9)] [];
+                                        qry [big (tvar 120); ancestor (tstr 1) (tvar 121)] []] |} ];
+     a_dirty := false; a_limits := olim |}.
+
+Example o_hyps :
+  setfree_facts (a_facts o_a) /\ setfree_rules (a_rules o_a) /\ Forall block_setfree o_tok /\
+  NoDup (a_facts o_a) /\
+  runs_ok orx o_tok o_a /\ runs_ok orx (map rev_block o_tok) (rev_astate o_a) /\
+  queries_ef orx o_tok o_a.
+Proof.
+  split; [repeat constructor|]. split; [repeat constructor|]. split; [repeat constructor|].
+  split; [repeat constructor; cbn [In]; intuition discriminate|].
+  split; [apply runs_ok_b_ok; vm_compute; reflexivity|].
+  split; [apply runs_ok_b_ok; vm_compute; reflexivity|].
+  apply queries_ef_b_ok. vm_compute. reflexivity.
+Qed.
+
+(* the theorem instantiated *)
+Example o_C12_permutation :
+  verdict_class (snd (authorize orx o_tok o_a)) =
+  verdict_class (snd (authorize orx (map rev_block o_tok) (rev_astate o_a))) /\
+  Permutation (a_facts (fst (authorize orx o_tok o_a)))
+              (a_facts (fst (authorize orx (map rev_block o_tok) (rev_astate o_a)))).
+Proof.
+  destruct o_hyps as [H1 [H2 [H3 [H4 [H5 [H6 H7]]]]]]. apply C12_reversed; assumption.
+Qed.
+
+(* what the two presentations actually return: same class, renumbered indices,
+   worlds in a different order *)
+Example o_verdicts :
+  snd (authorize orx o_tok o_a) = VChecksFailed [(FromAuthorizer, 1%N); (FromBlock 1, 1%N)] /\
+  snd (authorize orx (map rev_block o_tok) (rev_astate o_a))
+    = VChecksFailed [(FromAuthorizer, 0%N); (FromBlock 1, 0%N)] /\
+  a_facts (fst (authorize orx o_tok o_a))
+    <> a_facts (fst (authorize orx (map rev_block o_tok) (rev_astate o_a))) /\
+  length (a_facts (fst (authorize orx o_tok o_a))) = 12.
+Proof.
+  split; [vm_compute; reflexivity|]. split; [vm_compute; reflexivity|].
+  split; [vm_compute; discriminate | vm_compute; reflexivity].
+Qed.
+
+(* the same programme without the failing checks reaches the policies: the allow
+   policy is second in the list and matches through its second query *)
+Definition o_pass_check (c : check) : bool :=
+  negb (list_eqb (fun q q' => list_eqb pred_seqb (r_body q) (r_body q')) c [qry [big (tint 1)] []]
+        || list_eqb (fun q q' => list_eqb pred_seqb (r_body q) (r_body q')) c
+                    [qry [ancestor (tstr 5) (tstr 1)] []]).
+Definition o_blk2 : block :=
+  {| b_facts := b_facts o_blk; b_rules := b_rules o_blk; b_checks := filter o_pass_check (b_checks o_blk) |}.
+Definition o_a2 : astate :=
+  {| a_facts := a_facts o_a; a_rules := a_rules o_a; a_checks := filter o_pass_check (a_checks o_a);
+     a_policies := a_policies o_a; a_dirty := false; a_limits := olim |}.
+
+Example o_success :
+  snd (authorize orx [o_auth; o_blk2] o_a2) = VSuccess /\
+  snd (authorize orx (map rev_block [o_auth; o_blk2]) (rev_astate o_a2)) = VSuccess /\
+  runs_ok orx [o_auth; o_blk2] o_a2 /\ queries_ef orx [o_auth; o_blk2] o_a2.
+Proof.
+  split; [vm_compute; reflexivity|]. split; [vm_compute; reflexivity|].
+  split; [apply runs_ok_b_ok; vm_compute; reflexivity | apply queries_ef_b_ok; vm_compute; reflexivity].
+Qed.
+
+(* the policy list order is significant: swapping the two policies of a
+   programme where both match changes the verdict *)
+Definition pol_allow_true : policy := {| pol_kind := Allow; pol_queries := [qry [] []] |}.
+Definition pol_deny_true : policy := {| pol_kind := Deny; pol_queries := [qry [] []] |}.
+Example policy_order_matters :
+  snd (authorize orx [o_auth] (add_policy (add_policy (fresh olim) pol_allow_true) pol_deny_true)) = VSuccess /\
+  snd (authorize orx [o_auth] (add_policy (add_policy (fresh olim) pol_deny_true) pol_allow_true)) = VPolicyDenied.
+Proof. split; vm_compute; reflexivity. Qed.
+
+(* query_nonempty_iff / check_holds_perm / checks_ok_perm / policy_result_perm_facts:
+   their error-freeness hypotheses on the closed authority world *)
+Definition o_world : list pred := fst (auth_world orx o_auth o_a).
+Example o_part1_hyps :
+  rule_ef orx (qry [big (tvar 120)] [x_gt_1]) o_world /\
+  query_rule orx (qry [big (tvar 120)] [x_gt_1]) o_world <> [] /\
+  checks_ef orx (a_checks o_a) o_world /\ policies_ef orx (a_policies o_a) o_world.
+Proof.
+  split; [apply rule_ef_b_iff; vm_compute; reflexivity|].
+  split; [vm_compute; discriminate|].
+  split; [apply checks_ef_b_ok; vm_compute; reflexivity|].
+  intros p Hp. apply (checks_ef_b_ok orx (map pol_queries (a_policies o_a)) o_world);
+    [vm_compute; reflexivity | apply in_map; exact Hp].
+Qed.
+
+(* the declarative error-freeness hypothesis of [error_free_no_rule_error] holds of
+   the authority-level programme (rules with a join, recursion and an expression) *)
+Example o_error_free :
+  error_free orx (a_rules o_a ++ b_rules o_auth)
+             (fold_left insert_fact (b_facts o_auth) (a_facts o_a))
+             (a_rules o_a ++ b_rules o_auth).
+Proof.
+  destruct o_hyps as [H1 [H2 [H3 _]]]. destruct (Forall_inv H3) as [H4 H5].
+  eapply (error_free_of_run orx olim _ _ o_world).
+  - apply fold_insert_setfree; assumption.
+  - apply setfree_rules_app; assumption.
+  - vm_compute. reflexivity.
+  - intros q Hq. apply rule_ef_b_iff.
+    cbn [a_rules o_a b_rules o_auth app anc_rules In] in Hq.
+    destruct Hq as [<-|[<-|[<-|[]]]]; vm_compute; reflexivity.
+Qed.
+
+(* C12_duplicate *)
+Example o_duplicate :
+  add_fact (add_fact o_a (parent (tstr 1) (tstr 2))) (parent (tstr 1) (tstr 2))
+  = add_fact o_a (parent (tstr 1) (tstr 2)) /\
+  In (parent (tstr 1) (tstr 2)) (b_facts o_auth) /\
+  a_facts (add_fact o_a (parent (tstr 1) (tstr 2))) <> a_facts o_a /\
+  snd (authorize orx o_tok (add_fact o_a (parent (tstr 1) (tstr 2)))) = snd (authorize orx o_tok o_a).
+Proof.
+  split; [apply C12_duplicate|]. split; [left; reflexivity|].
+  split; [vm_compute; discriminate | vm_compute; reflexivity].
+Qed.
+
+(* C12_repeat: hypotheses and instance *)
+Example o_C12_repeat :
+  snd (authorize orx o_tok (fst (authorize orx o_tok o_a))) = snd (authorize orx o_tok o_a).
+Proof.
+  destruct o_hyps as [H1 [H2 [H3 [H4 [H5 [H6 H7]]]]]].
+  apply C12_repeat; [exact H1 | exact H2 | exact (Forall_inv H3) |].
+  apply runs_ok_iff. exact H5.
+Qed.
+
+Example o_C12_repeat_computed :
+  snd (authorize orx o_tok (fst (authorize orx o_tok o_a)))
+    = VChecksFailed [(FromAuthorizer, 1%N); (FromBlock 1, 1%N)] /\
+  authorize orx o_tok (authorize_times orx 3 o_tok o_a) = authorize orx o_tok o_a /\
+  a_rules (fst (authorize orx o_tok o_a)) = [] /\ a_rules o_a <> [].
+Proof.
+  split; [vm_compute; reflexivity|]. split; [vm_compute; reflexivity|].
+  split; [vm_compute; reflexivity | discriminate].
+Qed.
+
+(** Boundary of C12_repeat: after an iteration-limit error the partial facts
+    stay in the world and the rules are kept, so the second call resumes and
+    succeeds. *)
+Definition lim_tight : limits := {| max_facts := 1000%N; max_iterations := 4%N |}.
+Definition a_chain : astate :=
+  {| a_facts := []; a_rules := chain_rules; a_checks := [];
+     a_policies := [ {| pol_kind := Allow; pol_queries := [qry [cpred 5] []] |} ];
+     a_dirty := false; a_limits := lim_tight |}.
+Definition tok_chain : list block := [ {| b_facts := [cpred 0]; b_rules := []; b_checks := [] |} ].
+
+Example C12_repeat_after_limit_example :
+  snd (authorize orx tok_chain a_chain) = VRunError EMaxIterations /\
+  a_facts (fst (authorize orx tok_chain a_chain)) = map cpred [0; 1; 2; 3; 4]%N /\
+  snd (authorize orx tok_chain (fst (authorize orx tok_chain a_chain))) = VSuccess /\
+  setfree_facts (a_facts a_chain) /\ setfree_rules (a_rules a_chain) /\
+  block_setfree (hd empty_block tok_chain).
+Proof.
+  split; [vm_compute; reflexivity|]. split; [vm_compute; reflexivity|].
+  split; [vm_compute; reflexivity|]. split; [constructor|]. split; repeat constructor.
+Qed.
+
+(** Boundary of C12_permutation: a query whose expression errors for some
+    bindings only.  check if a($x), 10 / $x > 0 over a(1), a(0) holds (the
+    match found before the error is kept), over a(0), a(1) it does not (the
+    error ends the enumeration at once).  Every hypothesis of C12_permutation
+    holds except [queries_ef]. *)
+Definition afact (z : Z) : pred := {| p_name := [97%N]; p_terms := [tint z] |}.
+Definition q_div : rule :=
+  qry [{| p_name := [97%N]; p_terms := [tvar 120] |}]
+      [[OVal (tint 10); OVal (tvar 120); OBin BDiv; OVal (tint 0); OBin BGreaterThan]].
+Definition a_div : astate :=
+  {| a_facts := []; a_rules := []; a_checks := [[q_div]]; a_policies := [pol_allow_true];
+     a_dirty := false; a_limits := olim |}.
+Definition tok_div (fs : list pred) : list block := [ {| b_facts := fs; b_rules := []; b_checks := [] |} ].
+
+Example C12_out_of_fragment_example :
+  snd (authorize orx (tok_div [afact 1; afact 0]) a_div) = VSuccess /\
+  snd (authorize orx (tok_div [afact 0; afact 1]) a_div) = VChecksFailed [(FromAuthorizer, 0%N)] /\
+  Forall2 block_perm (tok_div [afact 1; afact 0]) (tok_div [afact 0; afact 1]) /\
+  astate_perm a_div a_div /\
+  Forall block_setfree (tok_div [afact 1; afact 0]) /\
+  runs_ok orx (tok_div [afact 1; afact 0]) a_div /\ runs_ok orx (tok_div [afact 0; afact 1]) a_div /\
+  ~ queries_ef orx (tok_div [afact 1; afact 0]) a_div.
+Proof.
+  split; [vm_compute; reflexivity|]. split; [vm_compute; reflexivity|].
+  split. { constructor; [|constructor]. split; cbn [tok_div b_facts b_rules b_checks];
+           [apply perm_swap | apply Permutation_refl | apply checks_perm_refl]. }
+  split. { split; [apply Permutation_refl | apply Permutation_refl | apply checks_perm_refl
+                  | apply policies_perm_refl | reflexivity]. }
+  split; [repeat constructor|].
+  split; [apply runs_ok_b_ok; vm_compute; reflexivity|].
+  split; [apply runs_ok_b_ok; vm_compute; reflexivity|].
+  intros [H _]. specialize (H [q_div] (or_introl eq_refl) q_div (or_introl eq_refl)).
+  apply rule_ef_b_iff in H. vm_compute in H. discriminate H.
+Qed.
+
+(* C12_alpha: $x $y $z renamed to $0x $0y $0z in one rule, to $7x.. in another *)
+Definition pre (n : N) : bytes -> bytes := cons n.
+Lemma pre_injective n : injective (pre n).
+Proof. intros x y H. injection H as H. exact H. Qed.
+
+Definition o_auth_renamed : block :=
+  {| b_facts := anc_facts;
+     b_rules := [rename_rule (pre 0) (nth 0 anc_rules q_rule); rename_rule (pre 7) (nth 1 anc_rules q_rule)];
+     b_checks := [ [rename_rule (pre 1) (qry [ancestor (tstr 1) (tstr 4)] [])];
+                   [rename_rule (pre 2) (qry [parent (tstr 9) (tstr 9)] []);
+                    rename_rule (pre 3) (qry [ancestor (tvar 120) (tstr 3)] [])] ] |}.
+
+Example o_alpha_hyp : alpha_block o_auth o_auth_renamed /\ b_rules o_auth_renamed <> b_rules o_auth.
+Proof.
+  split; [|vm_compute; discriminate].
+  split; [reflexivity | |];
+    repeat (constructor; try (eexists; split; [apply pre_injective | reflexivity])).
+Qed.
+
+Example o_alpha_computed :
+  authorize orx [o_auth_renamed] o_a2 = authorize orx [o_auth] o_a2 /\
+  query_rule orx (rename_rule (pre 5) (qry [big (tvar 120)] [x_gt_1])) o_world
+    = query_rule orx (qry [big (tvar 120)] [x_gt_1]) o_world.
+Proof. split; [vm_compute; reflexivity | apply query_rule_rename; apply pre_injective]. Qed.
+
+(* renaming variable names *inside set constants* as well would not preserve the
+   semantics when a fact carries such a set: a set is compared as a value *)
+Definition rename_atom_deep (f : bytes -> bytes) (a : atom) : atom :=
+  match a with AVar v => AVar (f v) | _ => a end.
+Definition rename_term_deep (f : bytes -> bytes) (t : term) : term :=
+  match t with TA a => TA (rename_atom_deep f a) | TSet l => TSet (map (rename_atom_deep f) l) end.
+Definition rename_pred_deep (f : bytes -> bytes) (p : pred) : pred :=
+  {| p_name := p_name p; p_terms := map (rename_term_deep f) (p_terms p) |}.
+Definition rename_rule_deep (f : bytes -> bytes) (r : rule) : rule :=
+  {| r_head := rename_pred_deep f (r_head r);
+     r_body := map (rename_pred_deep f) (r_body r);
+     r_exprs := map (map (fun o => match o with OVal t => OVal (rename_term_deep f t) | _ => o end))
+                    (r_exprs r) |}.
+
+(* q() <- p($y), $y == {$x}   over the (not set-free) fact p({$x}) *)
+Definition q_setvar : rule :=
+  qry [{| p_name := [112%N]; p_terms := [tvar 121] |}]
+      [[OVal (tvar 121); OVal (TSet [AVar [120%N]]); OBin BEqual]].
+Example rename_inside_sets_refuted :
+  injective (pre 0) /\
+  query_rule orx q_setvar [{| p_name := [112%N]; p_terms := [TSet [AVar [120%N]]] |}] = [qhead] /\
+  query_rule orx (rename_rule_deep (pre 0) q_setvar)
+             [{| p_name := [112%N]; p_terms := [TSet [AVar [120%N]]] |}] = [] /\
+  query_rule orx (rename_rule (pre 0) q_setvar)
+             [{| p_name := [112%N]; p_terms := [TSet [AVar [120%N]]] |}] = [qhead].
+Proof. split; [apply pre_injective|]. repeat split; vm_compute; reflexivity. Qed.
+
+(* C04 composition: hypotheses and instance *)
+Example o_C04_verdict_spec :
+  spec_verdict orx o_auth [o_blk] o_a (VChecksFailed [(FromAuthorizer, 1%N); (FromBlock 1, 1%N)]).
+Proof.
+  destruct o_hyps as [H1 [H2 [H3 [H4 [H5 [H6 H7]]]]]].
+  refine (proj2 (C04_verdict_spec orx o_auth [o_blk] o_a H1 H2 (Forall_inv H3) (Forall_inv_tail H3) H5 H7 _) _).
+  vm_compute. reflexivity.
+Qed.
+
+Example o_least_model :
+  forall f, In f o_world <-> auth_model orx o_auth o_a f.
+Proof.
+  destruct o_hyps as [H1 [H2 [H3 _]]].
+  apply (auth_world_model orx o_auth o_a o_world H1 H2 (Forall_inv H3)).
+  vm_compute. reflexivity.
+Qed.
+
+Print Assumptions query_nonempty_iff.
+Print Assumptions query_nonempty_perm.
+Print Assumptions check_holds_perm.
+Print Assumptions checks_ok_perm.
+Print Assumptions policy_result_perm_facts.
+Print Assumptions error_free_no_rule_error.
+Print Assumptions run_seteq.
+Print Assumptions C12_permutation.
+Print Assumptions C12_permutation_authority.
+Print Assumptions C12_reversed.
+Print Assumptions block_world_perm.
+Print Assumptions C12_duplicate.
+Print Assumptions fold_insert_dup.
+Print Assumptions C12_duplicate_authority_fact.
+Print Assumptions C12_duplicate_world.
+Print Assumptions C12_duplicate_authorizer_fact.
+Print Assumptions C12_repeat_state.
+Print Assumptions C12_repeat.
+Print Assumptions C12_repeat_n.
+Print Assumptions C12_repeat_after_limit_example.
+Print Assumptions C12_out_of_fragment_example.
+Print Assumptions apply_rule_rename.
+Print Assumptions query_rule_rename.
+Print Assumptions C12_alpha.
+Print Assumptions rename_inside_sets_refuted.
+Print Assumptions C04_worlds_are_least_models.
+Print Assumptions C04_verdict_spec.
+Print Assumptions runs_ok_iff.
